@@ -255,3 +255,751 @@ TWINS = [
         "                    return rv\n")]},
     {"name": "argument-weight-through-local-and-augassign", "edits": [(R, "                argument_weights.append(convobj.weight)\n", "                conv_weight = convobj.weight\n                argument_weights += [conv_weight]\n")]},
 ]
+
+
+# ======================================================================
+# round 2: shapes found by probing every rule with independent neutral variants (and a defect in each new shape)
+
+_H_SELECT = (
+    "            allowed = e.have_match_for\n"
+    "            failure: HTTPException = NotFound()\n"
+    "            if allowed:\n"
+    "                failure = MethodNotAllowed(valid_methods=list(allowed))\n"
+    "            elif e.websocket_mismatch:\n"
+    "                failure = WebsocketMismatch()\n"
+    "            raise failure from None\n"
+)
+_H_IFEXP = (
+    "            raise (\n"
+    "                MethodNotAllowed(valid_methods=list(e.have_match_for))\n"
+    "                if e.have_match_for\n"
+    "                else WebsocketMismatch() if e.websocket_mismatch else NotFound()\n"
+    "            ) from None\n"
+)
+_TEST_AT = "    def test(self, path_info: str | None = None, method: str | None = None) -> bool:\n"
+_H_METHOD = (
+    "    @staticmethod\n"
+    "    def _http_error_for(failure: NoMatch) -> HTTPException:\n"
+    "        if len(failure.have_match_for) > 0:\n"
+    "            return MethodNotAllowed(valid_methods=list(failure.have_match_for))\n"
+    "        if failure.websocket_mismatch:\n"
+    "            return WebsocketMismatch()\n"
+    "        return NotFound()\n"
+    "\n" + _TEST_AT
+)
+_H_METHOD_CALL = "            raise self._http_error_for(e) from None\n"
+_H_RAISER = (
+    "    def _refuse(self, methods: set[str], websocket_mismatch: bool) -> t.NoReturn:\n"
+    "        if not methods:\n"
+    "            if websocket_mismatch:\n"
+    "                raise WebsocketMismatch() from None\n"
+    "            raise NotFound() from None\n"
+    "        raise MethodNotAllowed(valid_methods=list(methods)) from None\n"
+    "\n" + _TEST_AT
+)
+_H_RAISER_CALL = "            self._refuse(e.have_match_for, e.websocket_mismatch)\n"
+_H_LISTFIRST = (
+    "            methods = list(e.have_match_for)\n"
+    "            if methods:\n"
+    "                raise MethodNotAllowed(valid_methods=methods) from None\n"
+    "            raise (WebsocketMismatch() if e.websocket_mismatch else NotFound()) from None\n"
+)
+_UPDATE_BODY = (
+    "        def _update_state(state: State) -> None:\n"
+    "            state.dynamic.sort(key=lambda entry: entry[0].weight)\n"
+    "            for new_state in state.static.values():\n"
+    "                _update_state(new_state)\n"
+    "            for _, new_state in state.dynamic:\n"
+    "                _update_state(new_state)\n"
+    "\n"
+    "        _update_state(state)\n"
+)
+_MAP_UPDATE_TAIL = (
+    "            self._matcher.update()\n"
+    "            for rules in self._rules_by_endpoint.values():\n"
+    "                rules.sort(key=lambda x: x.build_compare_key())\n"
+    "            self._remap = False\n"
+)
+_USABLE = (
+    "        def _usable(rule: Rule) -> bool:\n"
+    "            nonlocal websocket_mismatch\n"
+    "            if rule.methods is not None and method not in rule.methods:\n"
+    "                have_match_for.update(rule.methods)\n"
+    "                return False\n"
+    "            if rule.websocket != websocket:\n"
+    "                websocket_mismatch = True\n"
+    "                return False\n"
+    "            return True\n"
+    "\n"
+    "        def _match(\n"
+)
+_LOOP1_USABLE = (
+    "                for rule in state.rules:\n"
+    "                    if _usable(rule):\n"
+    "                        return rule, values\n"
+    "\n"
+    "                # Test if there is a match with this path with a\n"
+)
+_LOOP2_USABLE = (
+    "                    if not rule.strict_slashes and _usable(rule):\n"
+    "                        return rule, values\n"
+)
+_LOOP2_USABLE_FLAG = (
+    "                    if rule.strict_slashes:\n"
+    "                        continue\n"
+    "                    ok = _usable(rule)\n"
+    "                    if ok:\n"
+    "                        return rule, values\n"
+)
+_LOOP1_BREAK = (
+    "                found = None\n"
+    "                for rule in state.rules:\n"
+    "                    if rule.methods is not None and method not in rule.methods:\n"
+    "                        have_match_for.update(rule.methods)\n"
+    "                    elif rule.websocket != websocket:\n"
+    "                        websocket_mismatch = True\n"
+    "                    else:\n"
+    "                        found = rule\n"
+    "                        break\n"
+    "                if found is not None:\n"
+    "                    return found, values\n"
+    "\n"
+    "                # Test if there is a match with this path with a\n"
+)
+_RESET = "                    argument_weights = []\n                    static_weights = []\n"
+_NOMATCH_FINAL = "\n        raise NoMatch(have_match_for, websocket_mismatch)\n"
+_CONVERT_LOOP = (
+    "            result = {}\n"
+    "            for name, value in zip(rule._converters.keys(), values):\n"
+    "                try:\n"
+    "                    value = rule._converters[name].to_python(value)\n"
+    "                except ValidationError:\n"
+    "                    raise NoMatch(have_match_for, websocket_mismatch) from None\n"
+    "                result[str(name)] = value\n"
+)
+_DYN_HEAD = "            for test_part, new_state in state.dynamic:\n                target = part\n"
+_DYN_BODY = (
+    "                match = re.compile(test_part.content).match(target)\n"
+    "                if match is not None:\n"
+    "                    if test_part.suffixed:\n"
+    "                        # If a part_isolating=False part has a slash suffix, remove the\n"
+    "                        # suffix from the match and check for the slash redirect next.\n"
+    "                        suffix = match.groups()[-1]\n"
+    "                        if suffix == \"/\":\n"
+    "                            remaining = [\"\"]\n"
+    "\n"
+    "                    converter_groups = sorted(\n"
+    "                        match.groupdict().items(), key=lambda entry: entry[0]\n"
+    "                    )\n"
+    "                    groups = [\n"
+    "                        value\n"
+    "                        for key, value in converter_groups\n"
+    "                        if key[:11] == \"__werkzeug_\"\n"
+    "                    ]\n"
+    "                    rv = _match(new_state, remaining, values + groups)\n"
+    "                    if rv is not None:\n"
+    "                        return rv\n"
+)
+_DYN_HELPER = (
+    "        def _follow(\n"
+    "            test_part: RulePart, new_state: State, target: str, remaining: list[str], values: list[str]\n"
+    "        ) -> tuple[Rule, list[str]] | None:\n"
+    "            match = re.compile(test_part.content).match(target)\n"
+    "            if match is None:\n"
+    "                return None\n"
+    "            if test_part.suffixed and match.groups()[-1] == \"/\":\n"
+    "                remaining = [\"\"]\n"
+    "            converter_groups = sorted(match.groupdict().items(), key=lambda entry: entry[0])\n"
+    "            groups = [value for key, value in converter_groups if key[:11] == \"__werkzeug_\"]\n"
+    "            return _match(new_state, remaining, values + groups)\n"
+    "\n"
+    "        try:\n            rv = _match(self._root, [domain, *path.split(\"/\")], [])\n        except SlashRequired:\n            raise RequestPath(f\"{path}/\") from None\n\n        if self.merge_slashes"
+)
+_CLASS_AT = "class StateMachineMatcher:\n"
+_METHOD_OK = (
+    "def _method_allowed(rule: Rule, method: str) -> bool:\n"
+    "    return rule.methods is None or method in rule.methods\n"
+    "\n\n" + _CLASS_AT
+)
+_PART_INNER = (
+    "                    weight = Weighting(\n"
+    "                        -len(static_weights),\n"
+    "                        static_weights,\n"
+    "                        -len(argument_weights),\n"
+    "                        argument_weights,\n"
+    "                    )\n"
+    "                    yield RulePart(\n"
+    "                        content=content,\n"
+    "                        final=final,\n"
+    "                        static=static,\n"
+    "                        suffixed=False,\n"
+    "                        weight=weight,\n"
+    "                    )\n"
+)
+_AT = "def _pythonize(value: str) -> None | bool | int | float | str:\n"
+_BUILDER = (
+    "def _build_part(\n"
+    "    content: str, final: bool, static: bool, literals: list[tuple[int, int]], converters: list[int]\n"
+    ") -> RulePart:\n"
+    "    weight = Weighting(-len(literals), literals, -len(converters), converters)\n"
+    "    return RulePart(content=content, final=final, static=static, suffixed=False, weight=weight)\n"
+    "\n\n" + _AT
+)
+_TAIL = "            if return_rule:\n                return rule, rv\n            else:\n                return rule.endpoint, rv\n"
+_DEFERRED = (
+    "\n"
+    "        if failure.have_match_for:\n"
+    "            raise MethodNotAllowed(valid_methods=list(failure.have_match_for)) from None\n"
+    "        if failure.websocket_mismatch:\n"
+    "            raise WebsocketMismatch() from None\n"
+    "        raise NotFound() from None\n"
+)
+
+MUTANTS += [
+    {"name": "select-websocket-tested-first", "expect": "R3.3", "edits": [(P, _HANDLER, _H_SELECT.replace(
+        "            if allowed:\n                failure = MethodNotAllowed(valid_methods=list(allowed))\n            elif e.websocket_mismatch:\n                failure = WebsocketMismatch()\n",
+        "            if e.websocket_mismatch:\n                failure = WebsocketMismatch()\n            elif allowed:\n                failure = MethodNotAllowed(valid_methods=list(allowed))\n"))]},
+    {"name": "select-405-overridden-afterwards", "expect": "R3.3", "edits": [(P, _HANDLER, _H_SELECT.replace("            elif e.websocket_mismatch:\n", "            if e.websocket_mismatch:\n"))]},
+    {"name": "select-405-without-methods", "expect": "R3.3", "edits": [(P, _HANDLER, _H_SELECT.replace("MethodNotAllowed(valid_methods=list(allowed))", "MethodNotAllowed()"))]},
+    {"name": "select-default-is-405", "expect": "R3.3", "edits": [(P, _HANDLER, _H_SELECT.replace("failure: HTTPException = NotFound()", "failure: HTTPException = MethodNotAllowed(valid_methods=list(allowed))").replace(
+        "            if allowed:\n                failure = MethodNotAllowed(valid_methods=list(allowed))\n            elif e.websocket_mismatch:\n", "            if not allowed and e.websocket_mismatch:\n"))]},
+    {"name": "ifexp-arms-swapped", "expect": "R3.3", "edits": [(P, _HANDLER, _H_IFEXP.replace("                if e.have_match_for\n", "                if not e.have_match_for\n"))]},
+    {"name": "staticmethod-tests-websocket-first", "expect": "R3.3", "edits": [(P, _HANDLER, _H_METHOD_CALL), (P, _TEST_AT, _H_METHOD.replace(
+        "        if len(failure.have_match_for) > 0:\n            return MethodNotAllowed(valid_methods=list(failure.have_match_for))\n        if failure.websocket_mismatch:\n            return WebsocketMismatch()\n",
+        "        if failure.websocket_mismatch:\n            return WebsocketMismatch()\n        if len(failure.have_match_for) > 0:\n            return MethodNotAllowed(valid_methods=list(failure.have_match_for))\n"))]},
+    {"name": "noreturn-method-gets-wrong-set", "expect": "R3.3", "edits": [(P, _HANDLER, _H_RAISER_CALL.replace("e.have_match_for, e.websocket_mismatch", "set(), e.websocket_mismatch")), (P, _TEST_AT, _H_RAISER)]},
+    {"name": "list-first-405-sliced", "expect": "R3.3", "edits": [(P, _HANDLER, _H_LISTFIRST.replace("valid_methods=methods", "valid_methods=methods[:1]"))]},
+    {"name": "map-update-sort-helper-skips-matcher", "expect": "R3.1", "edits": [
+        (P, _MAP_UPDATE_TAIL, "            self._sort_rules()\n            self._remap = False\n"),
+        (P, "    def __repr__(self) -> str:\n        rules = self.iter_rules()\n", "    def _sort_rules(self) -> None:\n        for rules in self._rules_by_endpoint.values():\n            rules.sort(key=lambda x: x.build_compare_key())\n\n    def __repr__(self) -> str:\n        rules = self.iter_rules()\n"),
+    ]},
+    {"name": "sort-key-named-function-by-content", "expect": "R3.1", "edits": [(M, _UPDATE_BODY, _UPDATE_BODY.replace(
+        "        def _update_state(state: State) -> None:\n            state.dynamic.sort(key=lambda entry: entry[0].weight)\n",
+        "        def _by_weight(entry: tuple[RulePart, State]) -> t.Any:\n            return entry[0].content\n\n        def _update_state(state: State) -> None:\n            state.dynamic.sort(key=_by_weight)\n"))]},
+    {"name": "update-worklist-skips-static", "expect": "R3.1", "edits": [(M, _UPDATE_BODY,
+        "        pending = [state]\n"
+        "        while pending:\n"
+        "            current = pending.pop()\n"
+        "            current.dynamic.sort(key=lambda entry: entry[0].weight)\n"
+        "            pending.extend(target for _, target in current.dynamic)\n")]},
+    {"name": "update-successors-chained-parts-not-states", "expect": "R3.1", "edits": [(M, _UPDATE_BODY, _UPDATE_BODY.replace(
+        "            for new_state in state.static.values():\n                _update_state(new_state)\n            for _, new_state in state.dynamic:\n                _update_state(new_state)\n",
+        "            for new_state in [*state.static.values()]:\n                _update_state(new_state)\n"))]},
+    {"name": "weighting-count-taken-too-early", "expect": "R3.1", "edits": [
+        (R, "        pos = 0\n        while pos < len(rule):\n", "        literal_count = len(static_weights)\n        pos = 0\n        while pos < len(rule):\n"),
+        (R, _W_OUTER, _W_OUTER.replace("            -len(static_weights),\n", "            -literal_count,\n"))]},
+    {"name": "per-rule-closure-forgets-methods", "expect": "R3.2", "edits": [(M, "        def _match(\n", _USABLE.replace("                have_match_for.update(rule.methods)\n", "")), (M, _LOOP1, _LOOP1_USABLE), (M, _LOOP2, _LOOP2_USABLE)]},
+    {"name": "per-rule-closure-called-before-strictness", "expect": "R3.2", "edits": [(M, "        def _match(\n", _USABLE), (M, _LOOP1, _LOOP1_USABLE), (M, _LOOP2, "                    if _usable(rule) and not rule.strict_slashes:\n                        return rule, values\n")]},
+    {"name": "base-loop-break-style-forgets-methods", "expect": "R3.2", "edits": [(M, _LOOP1, _LOOP1_BREAK.replace("                        have_match_for.update(rule.methods)\n", "                        continue\n"))]},
+    {"name": "weights-copied-only-one-then-cleared", "expect": "R3.5", "edits": [
+        (R, _W_INNER, "                    weight = Weighting(\n                        -len(static_weights),\n                        list(static_weights),\n                        -len(argument_weights),\n                        argument_weights,\n                    )\n"),
+        (R, _RESET, "                    argument_weights.clear()\n                    static_weights.clear()\n")]},
+    {"name": "reset-by-tuple-assignment-same-list", "expect": "R3.5", "edits": [(R, _RESET, "                    fresh: list[t.Any] = []\n                    argument_weights, static_weights = fresh, fresh\n")]},
+    {"name": "dynamic-reversed", "expect": "R3.1", "edits": [(M, _DYN_HEAD, "            for test_part, new_state in reversed(state.dynamic):\n                target = part\n")]},
+    {"name": "record-closure-records-nothing", "expect": "R3.2", "edits": [
+        (M, "        def _match(\n", "        def _remember(rule: Rule) -> None:\n            if rule.methods is None:\n                have_match_for.update(rule.methods)\n\n        def _match(\n"),
+        (M, _LOOP1, _LOOP1.replace("have_match_for.update(rule.methods)", "_remember(rule)")),
+        (M, _LOOP2, _LOOP2.replace("have_match_for.update(rule.methods)", "_remember(rule)")),
+    ]},
+    {"name": "module-predicate-ignores-unrestricted", "expect": "R3.2", "edits": [
+        (M, _CLASS_AT, _METHOD_OK.replace("rule.methods is None or method in rule.methods", "rule.methods is not None and method in rule.methods")),
+        (M, _LOOP1, _LOOP1.replace("if rule.methods is not None and method not in rule.methods:", "if not _method_allowed(rule, method):")),
+    ]},
+    {"name": "handler-methods-minus-options", "expect": "R3.3", "edits": [(P, _HANDLER, _HANDLER.replace("list(e.have_match_for)", "list(e.have_match_for - {'OPTIONS'})"))]},
+    {"name": "part-helper-and-reset-forgotten", "expect": "R3.5", "edits": [(R, _PART_INNER, "                    yield _build_part(content, final, static, static_weights, argument_weights)\n"), (R, _AT, _BUILDER), (R, _RESET, "                    static_weights = []\n")]},
+    {"name": "part-helper-lists-swapped", "expect": "R3.1", "edits": [(R, _PART_INNER, "                    yield _build_part(content, final, static, static_weights, argument_weights)\n"), (R, _AT, _BUILDER.replace("Weighting(-len(literals), literals, -len(converters), converters)", "Weighting(-len(literals), converters, -len(converters), literals)"))]},
+    {"name": "handler-deferred-after-try-inverted", "expect": "R3.3", "edits": [(P, _HANDLER, "            failure = e\n"), (P, _TAIL, _TAIL + _DEFERRED.replace("if failure.have_match_for:", "if not failure.have_match_for:"))]},
+    {"name": "405-raised-after-successful-match", "expect": "R3.3", "edits": [(P, "            rule, rv = result\n\n            if self.map.redirect_defaults:\n", "            rule, rv = result\n            if rule.methods is not None and method not in rule.methods:\n                raise MethodNotAllowed(valid_methods=list(rule.methods))\n\n            if self.map.redirect_defaults:\n")]},
+]
+
+TWINS += [
+    {"name": "handler-select-default-override", "edits": [(P, _HANDLER, _H_SELECT)]},
+    {"name": "handler-ifexp", "edits": [(P, _HANDLER, _H_IFEXP)]},
+    {"name": "handler-error-from-staticmethod", "edits": [(P, _HANDLER, _H_METHOD_CALL), (P, _TEST_AT, _H_METHOD)]},
+    {"name": "handler-noreturn-method", "edits": [(P, _HANDLER, _H_RAISER_CALL), (P, _TEST_AT, _H_RAISER)]},
+    {"name": "handler-list-first", "edits": [(P, _HANDLER, _H_LISTFIRST)]},
+    {"name": "nomatch-built-by-closure", "edits": [
+        (M, "        def _match(\n", "        def _no_match() -> NoMatch:\n            return NoMatch(have_match_for, websocket_mismatch)\n\n        def _match(\n"),
+        (M, _NOMATCH_FINAL, "\n        raise _no_match()\n"),
+        (M, "                    raise NoMatch(have_match_for, websocket_mismatch) from None\n", "                    raise _no_match() from None\n"),
+        (M, "                raise NoMatch(have_match_for, websocket_mismatch)\n            else:", "                raise _no_match()\n            else:"),
+    ]},
+    {"name": "adapter-map-alias", "edits": [
+        (P, "        self.map.update()\n        if path_info is None:\n            path_info = self.path_info\n        if query_args is None:", "        url_map = self.map\n        url_map.update()\n        if path_info is None:\n            path_info = self.path_info\n        if query_args is None:"),
+        (P, "            result = self.map._matcher.match(domain_part, path_part, method, websocket)\n", "            matcher = url_map._matcher\n            result = matcher.match(domain_part, path_part, method, websocket)\n"),
+    ]},
+    {"name": "map-update-sort-helper", "edits": [
+        (P, _MAP_UPDATE_TAIL, "            self._sort_rules()\n            self._remap = False\n"),
+        (P, "    def __repr__(self) -> str:\n        rules = self.iter_rules()\n", "    def _sort_rules(self) -> None:\n        self._matcher.update()\n        for rules in self._rules_by_endpoint.values():\n            rules.sort(key=lambda x: x.build_compare_key())\n\n    def __repr__(self) -> str:\n        rules = self.iter_rules()\n"),
+    ]},
+    {"name": "sort-key-named-function", "edits": [(M, _UPDATE_BODY, _UPDATE_BODY.replace(
+        "        def _update_state(state: State) -> None:\n            state.dynamic.sort(key=lambda entry: entry[0].weight)\n",
+        "        def _by_weight(entry: tuple[RulePart, State]) -> t.Any:\n            return entry[0].weight\n\n        def _update_state(state: State) -> None:\n            state.dynamic.sort(key=_by_weight)\n"))]},
+    {"name": "update-worklist", "edits": [(M, _UPDATE_BODY,
+        "        pending = [state]\n"
+        "        while pending:\n"
+        "            current = pending.pop()\n"
+        "            current.dynamic.sort(key=lambda entry: entry[0].weight)\n"
+        "            pending.extend(current.static.values())\n"
+        "            pending.extend(target for _, target in current.dynamic)\n")]},
+    {"name": "update-successors-chained", "edits": [(M, _UPDATE_BODY, _UPDATE_BODY.replace(
+        "            for new_state in state.static.values():\n                _update_state(new_state)\n            for _, new_state in state.dynamic:\n                _update_state(new_state)\n",
+        "            for new_state in [*state.static.values(), *(s for _, s in state.dynamic)]:\n                _update_state(new_state)\n"))]},
+    {"name": "static-attempt-ifexp", "edits": [(M, _STATIC_BLOCK,
+        "            rv = _match(state.static[part], parts[1:], values) if part in state.static else None\n"
+        "            if rv is not None:\n"
+        "                return rv\n")]},
+    {"name": "dynamic-loop-through-alias", "edits": [(M, "            for test_part, new_state in state.dynamic:\n                target = part\n", "            transitions = state.dynamic\n            for test_part, new_state in transitions:\n                target = part\n")]},
+    {"name": "weighting-counts-through-locals", "edits": [(R, _W_OUTER,
+        "        literal_count = len(static_weights)\n"
+        "        weight = Weighting(\n"
+        "            -literal_count,\n"
+        "            static_weights,\n"
+        "            -len(argument_weights),\n"
+        "            argument_weights,\n"
+        "        )\n")]},
+    {"name": "per-rule-closure-in-both-loops", "edits": [(M, "        def _match(\n", _USABLE), (M, _LOOP1, _LOOP1_USABLE), (M, _LOOP2, _LOOP2_USABLE)]},
+    {"name": "per-rule-closure-result-in-flag", "edits": [(M, "        def _match(\n", _USABLE), (M, _LOOP1, _LOOP1_USABLE), (M, _LOOP2, _LOOP2_USABLE_FLAG)]},
+    {"name": "base-loop-break-style", "edits": [(M, _LOOP1, _LOOP1_BREAK)]},
+    {"name": "conversion-in-closure", "edits": [
+        (M, _CONVERT_LOOP, "            result = _convert(rule, values)\n"),
+        (M, "        def _match(\n",
+         "        def _convert(rule: Rule, values: list[str]) -> dict[str, t.Any]:\n"
+         "            result = {}\n"
+         "            for name, value in zip(rule._converters.keys(), values):\n"
+         "                try:\n"
+         "                    value = rule._converters[name].to_python(value)\n"
+         "                except ValidationError:\n"
+         "                    raise NoMatch(have_match_for, websocket_mismatch) from None\n"
+         "                result[str(name)] = value\n"
+         "            return result\n\n"
+         "        def _match(\n")]},
+    {"name": "weights-copied-into-part-then-cleared", "edits": [
+        (R, _W_INNER, "                    weight = Weighting(\n                        -len(static_weights),\n                        list(static_weights),\n                        -len(argument_weights),\n                        list(argument_weights),\n                    )\n"),
+        (R, _RESET, "                    argument_weights.clear()\n                    static_weights.clear()\n")]},
+    {"name": "reset-by-tuple-assignment", "edits": [(R, _RESET, "                    argument_weights, static_weights = [], []\n")]},
+    {"name": "merge-in-closure", "edits": [
+        (M, "        def _match(\n", "        def _merged(raw: str) -> str:\n            return re.sub(\"/{2,}?\", \"/\", raw)\n\n        def _match(\n"),
+        (M, "            path = re.sub(\"/{2,}?\", \"/\", path)\n", "            path = _merged(path)\n")]},
+    {"name": "converters-table-dict-call", "edits": [(C,
+        "DEFAULT_CONVERTERS: t.Mapping[str, type[BaseConverter]] = {\n    \"default\": UnicodeConverter,\n    \"string\": UnicodeConverter,\n    \"any\": AnyConverter,\n    \"path\": PathConverter,\n    \"int\": IntegerConverter,\n    \"float\": FloatConverter,\n    \"uuid\": UUIDConverter,\n}\n",
+        "DEFAULT_CONVERTERS: t.Mapping[str, type[BaseConverter]] = dict(\n    default=UnicodeConverter,\n    string=UnicodeConverter,\n    any=AnyConverter,\n    path=PathConverter,\n    int=IntegerConverter,\n    float=FloatConverter,\n    uuid=UUIDConverter,\n)\n")]},
+    {"name": "static-attempt-keyword-call", "edits": [(M, _STATIC_BLOCK, _STATIC_BLOCK.replace("_match(state.static[part], parts[1:], values)", "_match(state=state.static[part], parts=parts[1:], values=values)"))]},
+    {"name": "dynamic-body-in-closure", "edits": [(M, _DYN_BODY, "                rv = _follow(test_part, new_state, target, remaining, values)\n                if rv is not None:\n                    return rv\n"), (M, _FIRST_TRY, _DYN_HELPER)]},
+    {"name": "dynamic-enumerate", "edits": [(M, _DYN_HEAD, "            for _position, (test_part, new_state) in enumerate(state.dynamic):\n                target = part\n")]},
+    {"name": "add-entry-through-local", "edits": [(M, "                    state.dynamic.append((part, new_state))\n", "                    entry = (part, new_state)\n                    state.dynamic.append(entry)\n")]},
+    {"name": "static-attempt-try-keyerror", "edits": [(M, _STATIC_BLOCK,
+        "            try:\n"
+        "                static_next = state.static[part]\n"
+        "            except KeyError:\n"
+        "                pass\n"
+        "            else:\n"
+        "                rv = _match(static_next, parts[1:], values)\n"
+        "                if rv is not None:\n"
+        "                    return rv\n")]},
+    {"name": "conversion-in-method", "edits": [
+        (M, _CONVERT_LOOP, "            result = self._convert(rule, values, have_match_for, websocket_mismatch)\n"),
+        (M, "    def match(\n        self, domain: str, path: str, method: str, websocket: bool\n",
+         "    @staticmethod\n"
+         "    def _convert(\n"
+         "        rule: Rule, values: list[str], have_match_for: set[str], websocket_mismatch: bool\n"
+         "    ) -> dict[str, t.Any]:\n"
+         "        result = {}\n"
+         "        for name, value in zip(rule._converters.keys(), values):\n"
+         "            try:\n"
+         "                value = rule._converters[name].to_python(value)\n"
+         "            except ValidationError:\n"
+         "                raise NoMatch(have_match_for, websocket_mismatch) from None\n"
+         "            result[str(name)] = value\n"
+         "        return result\n\n"
+         "    def match(\n        self, domain: str, path: str, method: str, websocket: bool\n")]},
+    {"name": "record-through-closure-statement", "edits": [
+        (M, "        def _match(\n", "        def _remember(rule: Rule) -> None:\n            have_match_for.update(rule.methods)\n\n        def _match(\n"),
+        (M, _LOOP1, _LOOP1.replace("have_match_for.update(rule.methods)", "_remember(rule)")),
+        (M, _LOOP2, _LOOP2.replace("have_match_for.update(rule.methods)", "_remember(rule)")),
+    ]},
+    {"name": "module-predicate-for-methods", "edits": [
+        (M, _CLASS_AT, _METHOD_OK),
+        (M, _LOOP1, _LOOP1.replace("if rule.methods is not None and method not in rule.methods:", "if not _method_allowed(rule, method):")),
+        (M, _LOOP2, _LOOP2.replace("if rule.methods is not None and method not in rule.methods:", "if not _method_allowed(rule, method):")),
+        (M, _SLASH_LOOP, _SLASH_LOOP.replace("                        if websocket == rule.websocket and (\n                            rule.methods is None or method in rule.methods\n                        ):\n", "                        if websocket == rule.websocket and _method_allowed(rule, method):\n")
+            .replace("                            not rule.strict_slashes\n                            and rule.methods is not None\n                            and method not in rule.methods\n", "                            not rule.strict_slashes\n                            and not _method_allowed(rule, method)\n")),
+    ]},
+    {"name": "rules-through-alias", "edits": [(M, _LOOP1, _LOOP1.replace("                for rule in state.rules:\n", "                candidates = state.rules\n                for rule in candidates:\n"))]},
+    {"name": "handler-len-not", "edits": [(P, _HANDLER,
+        "            if not len(e.have_match_for):\n"
+        "                if e.websocket_mismatch:\n"
+        "                    raise WebsocketMismatch() from None\n"
+        "                raise NotFound() from None\n"
+        "            raise MethodNotAllowed(valid_methods=list(e.have_match_for)) from None\n")]},
+    {"name": "handler-compare-empty-set", "edits": [(P, _HANDLER, _HANDLER.replace("if e.have_match_for:", "if e.have_match_for != set():"))]},
+    {"name": "map-update-positive-guard", "edits": [(P,
+        "        if not self._remap:\n            return\n\n        with self._remap_lock:\n            if not self._remap:\n                return\n\n            self._matcher.update()\n            for rules in self._rules_by_endpoint.values():\n                rules.sort(key=lambda x: x.build_compare_key())\n            self._remap = False\n",
+        "        if self._remap:\n            with self._remap_lock:\n                if self._remap:\n                    self._matcher.update()\n                    for rules in self._rules_by_endpoint.values():\n                        rules.sort(key=lambda x: x.build_compare_key())\n                    self._remap = False\n")]},
+    {"name": "nomatch-keywords", "edits": [(M, "\n        raise NoMatch(have_match_for, websocket_mismatch)\n", "\n        raise NoMatch(have_match_for=have_match_for, websocket_mismatch=websocket_mismatch)\n")]},
+    {"name": "weight-inline-in-rulepart", "edits": [(R,
+        "        weight = Weighting(\n            -len(static_weights),\n            static_weights,\n            -len(argument_weights),\n            argument_weights,\n        )\n        yield RulePart(\n            content=content,\n            final=final,\n            static=static,\n            suffixed=suffixed,\n            weight=weight,\n        )\n",
+        "        yield RulePart(\n            content=content,\n            final=final,\n            static=static,\n            suffixed=suffixed,\n            weight=(weight := Weighting(-len(static_weights), static_weights, -len(argument_weights), argument_weights)),\n        )\n")]},
+    {"name": "converter-weight-direct", "edits": [(R, "                argument_weights.append(convobj.weight)\n", "                argument_weights.extend([convobj.weight])\n")]},
+    {"name": "have-match-for-annotated", "edits": [(M, "        have_match_for = set()\n", "        have_match_for: set[str] = set()\n")]},
+    {"name": "merge-flag-local-early", "edits": [
+        (M, "        have_match_for = set()\n", "        have_match_for = set()\n        merge = self.merge_slashes\n"),
+        (M, "        if self.merge_slashes and rv is None:\n", "        if rv is None and merge:\n")]},
+    {"name": "part-and-weight-built-by-helper", "edits": [(R, _PART_INNER, "                    yield _build_part(content, final, static, static_weights, argument_weights)\n"), (R, _AT, _BUILDER)]},
+    {"name": "handler-deferred-after-try", "edits": [(P, _HANDLER, "            failure = e\n"), (P, _TAIL, _TAIL + _DEFERRED)]},
+    {"name": "handler-class-then-instance", "edits": [(P, _HANDLER,
+        "            if e.have_match_for:\n"
+        "                raise MethodNotAllowed(valid_methods=list(e.have_match_for)) from None\n"
+        "            error_class = WebsocketMismatch if e.websocket_mismatch else NotFound\n"
+        "            raise error_class() from None\n")]},
+    {"name": "handler-walrus-methods", "edits": [(P, _HANDLER,
+        "            if allowed := e.have_match_for:\n"
+        "                raise MethodNotAllowed(valid_methods=list(allowed)) from None\n"
+        "            raise (WebsocketMismatch() if e.websocket_mismatch else NotFound()) from None\n")]},
+    {"name": "merge-pattern-module-constant", "edits": [
+        (M, "class SlashRequired(Exception):\n", "_repeated_slashes = re.compile(\"/{2,}?\")\n\n\nclass SlashRequired(Exception):\n"),
+        (M, "            path = re.sub(\"/{2,}?\", \"/\", path)\n", "            path = _repeated_slashes.sub(\"/\", path)\n")]},
+    {"name": "conversion-try-around-loop", "edits": [(M, _CONVERT_LOOP,
+        "            result = {}\n"
+        "            try:\n"
+        "                for name, value in zip(rule._converters.keys(), values):\n"
+        "                    result[str(name)] = rule._converters[name].to_python(value)\n"
+        "            except ValidationError:\n"
+        "                raise NoMatch(have_match_for, websocket_mismatch) from None\n")]},
+    {"name": "conversion-dict-comprehension", "edits": [(M, _CONVERT_LOOP,
+        "            try:\n"
+        "                result = {\n"
+        "                    str(name): rule._converters[name].to_python(value)\n"
+        "                    for name, value in zip(rule._converters.keys(), values)\n"
+        "                }\n"
+        "            except ValidationError:\n"
+        "                raise NoMatch(have_match_for, websocket_mismatch) from None\n")]},
+    {"name": "retry-in-closure", "edits": [
+        (M, "        if self.merge_slashes and rv is None:\n            # Try to match again, but with slashes merged\n            path = re.sub(\"/{2,}?\", \"/\", path)\n            try:\n                rv = _match(self._root, [domain, *path.split(\"/\")], [])\n            except SlashRequired:\n                raise RequestPath(f\"{path}/\") from None\n",
+            "        def _attempt(candidate: str) -> tuple[Rule, list[str]] | None:\n            try:\n                return _match(self._root, [domain, *candidate.split(\"/\")], [])\n            except SlashRequired:\n                raise RequestPath(f\"{candidate}/\") from None\n\n        if self.merge_slashes and rv is None:\n            # Try to match again, but with slashes merged\n            path = re.sub(\"/{2,}?\", \"/\", path)\n            rv = _attempt(path)\n")]},
+]
+
+
+# ======================================================================
+# round 2b: generator traversal, tuple-returning reset helper, unpacking key function, table / weight spellings
+
+_GEN = (
+    "        def _states(current: State) -> t.Iterator[State]:\n"
+    "            yield current\n"
+    "            for following in current.static.values():\n"
+    "                yield from _states(following)\n"
+    "            for _, following in current.dynamic:\n"
+    "                yield from _states(following)\n"
+    "\n"
+    "        for visited in _states(state):\n"
+    "            visited.dynamic.sort(key=lambda entry: entry[0].weight)\n"
+)
+_INIT = (
+    "        content = \"\"\n"
+    "        static = True\n"
+    "        argument_weights = []\n"
+    "        static_weights: list[tuple[int, int]] = []\n"
+    "        final = False\n"
+    "        convertor_number = 0\n"
+)
+_RESET_BLOCK = (
+    "                    content = \"\"\n"
+    "                    static = True\n"
+    "                    argument_weights = []\n"
+    "                    static_weights = []\n"
+    "                    final = False\n"
+    "                    convertor_number = 0\n"
+)
+_FRESH = (
+    "        def _fresh() -> tuple[str, bool, list[int], list[tuple[int, int]], bool, int]:\n"
+    "            return \"\", True, [], [], False, 0\n"
+    "\n"
+    "        content, static, argument_weights, static_weights, final, convertor_number = _fresh()\n"
+)
+_FRESH_CALL = "                    content, static, argument_weights, static_weights, final, convertor_number = _fresh()\n"
+_UPDATE_HEAD = (
+    "        def _update_state(state: State) -> None:\n"
+    "            state.dynamic.sort(key=lambda entry: entry[0].weight)\n"
+)
+
+MUTANTS += [
+    {"name": "update-generator-skips-dynamic-targets", "expect": "R3.1", "edits": [(M, _UPDATE_BODY, _GEN.replace("            for _, following in current.dynamic:\n                yield from _states(following)\n", ""))]},
+    {"name": "update-generator-not-started-at-root", "expect": "R3.1", "edits": [(M, _UPDATE_BODY, _GEN.replace("for visited in _states(state):", "for visited in _states(State()):"))]},
+    {"name": "reset-closure-hands-out-one-shared-list", "expect": "R3.5", "edits": [
+        (R, _INIT, "        shared_arguments: list[int] = []\n\n" + _FRESH.replace("return \"\", True, [], [], False, 0", "return \"\", True, shared_arguments, [], False, 0")), (R, _RESET_BLOCK, _FRESH_CALL)]},
+    {"name": "sort-key-unpacks-entry-takes-state", "expect": "R3.1", "edits": [(M, _UPDATE_HEAD,
+        "        def _transition_weight(entry: tuple[RulePart, State]) -> t.Any:\n            _, part = entry\n            return part.weight\n\n"
+        "        def _update_state(state: State) -> None:\n            state.dynamic.sort(key=_transition_weight)\n")]},
+    {"name": "weight-relative-to-base-too-small", "expect": "R3.1", "edits": [(C, "    regex = \"[^/].*?\"\n    weight = 200\n", "    regex = \"[^/].*?\"\n    weight = BaseConverter.weight // 2\n")]},
+    {"name": "table-later-pair-overrides-path", "expect": "R3.1", "edits": [(C, "    \"uuid\": UUIDConverter,\n}\n", "    \"uuid\": UUIDConverter,\n    **dict.fromkeys((\"path\",), IntegerConverter),\n}\n")]},
+    {"name": "map-add-through-alias-forgets-remap", "expect": "R3.1", "edits": [(P,
+        "            if not rule.build_only:\n                self._matcher.add(rule)\n            self._rules_by_endpoint.setdefault(rule.endpoint, []).append(rule)\n        self._remap = True\n",
+        "            if not rule.build_only:\n                matcher = self._matcher\n                matcher.add(rule)\n            self._rules_by_endpoint.setdefault(rule.endpoint, []).append(rule)\n")]},
+    {"name": "counts-unpacked-too-early", "expect": "R3.1", "edits": [
+        (R, "        pos = 0\n        while pos < len(rule):\n", "        n_static, n_arguments = len(static_weights), len(argument_weights)\n        pos = 0\n        while pos < len(rule):\n"),
+        (R, "        weight = Weighting(\n            -len(static_weights),\n            static_weights,\n            -len(argument_weights),\n            argument_weights,\n        )\n",
+            "        weight = Weighting(\n            -n_static,\n            static_weights,\n            -n_arguments,\n            argument_weights,\n        )\n")]},
+]
+
+TWINS += [
+    {"name": "update-states-from-generator", "edits": [(M, _UPDATE_BODY, _GEN)]},
+    {"name": "reset-through-tuple-returning-closure", "edits": [(R, _INIT, _FRESH), (R, _RESET_BLOCK, _FRESH_CALL)]},
+    {"name": "sort-key-unpacks-entry", "edits": [(M, _UPDATE_HEAD,
+        "        def _transition_weight(entry: tuple[RulePart, State]) -> t.Any:\n            part, _ = entry\n            return part.weight\n\n"
+        "        def _update_state(state: State) -> None:\n            state.dynamic.sort(key=_transition_weight)\n")]},
+]
+
+# independent neutral refactorings written by an author who had not seen the checker (verified against the routing
+# tests and a differential run); the first round of them found seven shapes the rules were too narrow for
+TWINS += [
+    {"name": "indep-match-first-acceptable-helper", "edits": [
+        (M, '        def _match(\n            state: State, parts: list[str], values: list[str]\n', '        def _first_acceptable(rules: list[Rule], skip_strict: bool) -> Rule | None:\n            nonlocal websocket_mismatch\n            for candidate in rules:\n                if skip_strict and candidate.strict_slashes:\n                    continue\n                if candidate.methods is not None and method not in candidate.methods:\n                    have_match_for.update(candidate.methods)\n                elif candidate.websocket != websocket:\n                    websocket_mismatch = True\n                else:\n                    return candidate\n            return None\n\n        def _match(\n            state: State, parts: list[str], values: list[str]\n'),
+        (M, '            if parts == []:\n                for rule in state.rules:\n                    if rule.methods is not None and method not in rule.methods:\n                        have_match_for.update(rule.methods)\n                    elif rule.websocket != websocket:\n                        websocket_mismatch = True\n                    else:\n                        return rule, values\n', '            if parts == []:\n                accepted = _first_acceptable(state.rules, False)\n                if accepted is not None:\n                    return accepted, values\n'),
+        (M, '            if parts == [""]:\n                for rule in state.rules:\n                    if rule.strict_slashes:\n                        continue\n                    if rule.methods is not None and method not in rule.methods:\n                        have_match_for.update(rule.methods)\n                    elif rule.websocket != websocket:\n                        websocket_mismatch = True\n                    else:\n                        return rule, values\n', '            if parts == [""]:\n                accepted = _first_acceptable(state.rules, True)\n                if accepted is not None:\n                    return accepted, values\n'),
+    ]},
+    {"name": "indep-match-slash-candidates-method-ok", "edits": [
+        (M, '                if "" in state.static:\n                    for rule in state.static[""].rules:\n                        if websocket == rule.websocket and (\n                            rule.methods is None or method in rule.methods\n                        ):\n                            if rule.strict_slashes:\n                                raise SlashRequired()\n                            else:\n                                return rule, values\n                        elif (\n                            not rule.strict_slashes\n                            and rule.methods is not None\n                            and method not in rule.methods\n                        ):\n                            have_match_for.update(rule.methods)\n                return None\n', '                slash_state = state.static.get("")\n                if slash_state is None:\n                    return None\n                for rule in slash_state.rules:\n                    method_ok = rule.methods is None or method in rule.methods\n                    if method_ok and websocket == rule.websocket:\n                        if not rule.strict_slashes:\n                            return rule, values\n                        raise SlashRequired()\n                    if not (rule.strict_slashes or method_ok):\n                        have_match_for.update(rule.methods)\n                return None\n'),
+    ]},
+    {"name": "indep-add-next-search-setdefault-result", "edits": [
+        (M, '            if part.static:\n                state.static.setdefault(part.content, State())\n                state = state.static[part.content]\n            else:\n                for test_part, new_state in state.dynamic:\n                    if test_part == part:\n                        state = new_state\n                        break\n                else:\n                    new_state = State()\n                    state.dynamic.append((part, new_state))\n                    state = new_state\n', '            if part.static:\n                state = state.static.setdefault(part.content, State())\n                continue\n            existing = next(\n                (target for test_part, target in state.dynamic if test_part == part),\n                None,\n            )\n            if existing is None:\n                existing = State()\n                state.dynamic.append((part, existing))\n            state = existing\n'),
+    ]},
+    {"name": "indep-update-sorted-assign-named-key", "edits": [
+        (M, '        state = self._root\n\n        def _update_state(state: State) -> None:\n            state.dynamic.sort(key=lambda entry: entry[0].weight)\n            for new_state in state.static.values():\n                _update_state(new_state)\n            for _, new_state in state.dynamic:\n                _update_state(new_state)\n\n        _update_state(state)\n', '        def _transition_weight(entry: tuple[RulePart, State]) -> t.Any:\n            part, _ = entry\n            return part.weight\n\n        def _update_state(state: State) -> None:\n            state.dynamic = sorted(state.dynamic, key=_transition_weight)\n            children = [*state.static.values(), *(child for _, child in state.dynamic)]\n            for new_state in children:\n                _update_state(new_state)\n\n        _update_state(self._root)\n'),
+    ]},
+    {"name": "indep-adapter-nomatch-module-helper", "edits": [
+        (P, 'class MapAdapter:\n    """Returned by :meth:`Map.bind` or :meth:`Map.bind_to_environ` and does\n', 'def _http_error_for(no_match: NoMatch) -> HTTPException:\n    if no_match.have_match_for:\n        return MethodNotAllowed(valid_methods=list(no_match.have_match_for))\n    return WebsocketMismatch() if no_match.websocket_mismatch else NotFound()\n\n\nclass MapAdapter:\n    """Returned by :meth:`Map.bind` or :meth:`Map.bind_to_environ` and does\n'),
+        (P, '            if e.have_match_for:\n                raise MethodNotAllowed(valid_methods=list(e.have_match_for)) from None\n\n            if e.websocket_mismatch:\n                raise WebsocketMismatch() from None\n\n            raise NotFound() from None\n', '            raise _http_error_for(e) from None\n'),
+    ]},
+    {"name": "indep-adapter-matcher-local-keywords", "edits": [
+        (P, '            result = self.map._matcher.match(domain_part, path_part, method, websocket)\n', '            matcher = self.map._matcher\n            rule, rv = matcher.match(\n                domain=domain_part, path=path_part, method=method, websocket=websocket\n            )\n'),
+        (P, '        else:\n            rule, rv = result\n\n            if self.map.redirect_defaults:\n', '        else:\n            if self.map.redirect_defaults:\n'),
+    ]},
+    {"name": "indep-map-update-slice-sorted", "edits": [
+        (P, '            self._matcher.update()\n            for rules in self._rules_by_endpoint.values():\n                rules.sort(key=lambda x: x.build_compare_key())\n            self._remap = False\n', '            matcher = self._matcher\n            matcher.update()\n            for rules in self._rules_by_endpoint.values():\n                rules[:] = sorted(rules, key=lambda x: x.build_compare_key())\n            self._remap = False\n'),
+    ]},
+    {"name": "indep-map-add-hoist-in-index", "edits": [
+        (P, '        for rule in rulefactory.get_rules(self):\n            rule.bind(self)\n            if not rule.build_only:\n                self._matcher.add(rule)\n            self._rules_by_endpoint.setdefault(rule.endpoint, []).append(rule)\n        self._remap = True\n', '        matcher = self._matcher\n        by_endpoint = self._rules_by_endpoint\n        for rule in rulefactory.get_rules(self):\n            rule.bind(self)\n            if rule.build_only:\n                pass\n            else:\n                matcher.add(rule)\n            if rule.endpoint not in by_endpoint:\n                by_endpoint[rule.endpoint] = []\n            by_endpoint[rule.endpoint].append(rule)\n        self._remap = True\n'),
+    ]},
+    {"name": "indep-parse-rule-weight-closure", "edits": [
+        (R, '        pos = 0\n        while pos < len(rule):\n', '        def _current_weight() -> Weighting:\n            return Weighting(\n                -len(static_weights),\n                static_weights,\n                -len(argument_weights),\n                argument_weights,\n            )\n\n        pos = 0\n        while pos < len(rule):\n'),
+        (R, '                        content += r"\\Z"\n                    weight = Weighting(\n                        -len(static_weights),\n                        static_weights,\n                        -len(argument_weights),\n                        argument_weights,\n                    )\n', '                        content += r"\\Z"\n                    weight = _current_weight()\n'),
+        (R, '        if not static:\n            content += r"\\Z"\n        weight = Weighting(\n            -len(static_weights),\n            static_weights,\n            -len(argument_weights),\n            argument_weights,\n        )\n', '        if not static:\n            content += r"\\Z"\n        weight = _current_weight()\n'),
+    ]},
+    {"name": "indep-parse-rule-weighting-keywords", "edits": [
+        (R, '                        content += r"\\Z"\n                    weight = Weighting(\n                        -len(static_weights),\n                        static_weights,\n                        -len(argument_weights),\n                        argument_weights,\n                    )\n', '                        content += r"\\Z"\n                    weight = Weighting(\n                        static_weights=static_weights,\n                        argument_weights=argument_weights,\n                        number_static_weights=-len(static_weights),\n                        number_argument_weights=-len(argument_weights),\n                    )\n'),
+        (R, '        if not static:\n            content += r"\\Z"\n        weight = Weighting(\n            -len(static_weights),\n            static_weights,\n            -len(argument_weights),\n            argument_weights,\n        )\n', '        if not static:\n            content += r"\\Z"\n        n_static, n_arguments = len(static_weights), len(argument_weights)\n        weight = Weighting(\n            number_static_weights=-n_static,\n            static_weights=static_weights,\n            number_argument_weights=-n_arguments,\n            argument_weights=argument_weights,\n        )\n'),
+    ]},
+    {"name": "indep-parse-rule-fresh-state-helper", "edits": [
+        (R, '        content = ""\n        static = True\n        argument_weights = []\n        static_weights: list[tuple[int, int]] = []\n        final = False\n        convertor_number = 0\n\n        pos = 0\n', '        def _fresh() -> tuple[str, bool, list[int], list[tuple[int, int]], bool, int]:\n            return "", True, [], [], False, 0\n\n        (\n            content,\n            static,\n            argument_weights,\n            static_weights,\n            final,\n            convertor_number,\n        ) = _fresh()\n\n        pos = 0\n'),
+        (R, '                    content = ""\n                    static = True\n                    argument_weights = []\n                    static_weights = []\n                    final = False\n                    convertor_number = 0\n', '                    (\n                        content,\n                        static,\n                        argument_weights,\n                        static_weights,\n                        final,\n                        convertor_number,\n                    ) = _fresh()\n'),
+    ]},
+    {"name": "indep-converters-named-weights-pairs", "edits": [
+        (C, 'class ValidationError(ValueError):\n', '_WEIGHT_DEFAULT = 100\n_WEIGHT_PATH = 200\n_WEIGHT_NUMBER = 50\n\n\nclass ValidationError(ValueError):\n'),
+        (C, '    regex = "[^/]+"\n    weight = 100\n', '    regex = "[^/]+"\n    weight = _WEIGHT_DEFAULT\n'),
+        (C, '    regex = "[^/].*?"\n    weight = 200\n', '    regex = "[^/].*?"\n    weight = _WEIGHT_PATH\n'),
+        (C, '    weight = 50\n    num_convert: t.Callable[[t.Any], t.Any] = int\n', '    weight = _WEIGHT_NUMBER\n    num_convert: t.Callable[[t.Any], t.Any] = int\n'),
+        (C, 'DEFAULT_CONVERTERS: t.Mapping[str, type[BaseConverter]] = {\n    "default": UnicodeConverter,\n    "string": UnicodeConverter,\n    "any": AnyConverter,\n    "path": PathConverter,\n    "int": IntegerConverter,\n    "float": FloatConverter,\n    "uuid": UUIDConverter,\n}\n', '_CONVERTER_TABLE: tuple[tuple[str, type[BaseConverter]], ...] = (\n    ("default", UnicodeConverter),\n    ("string", UnicodeConverter),\n    ("any", AnyConverter),\n    ("path", PathConverter),\n    ("int", IntegerConverter),\n    ("float", FloatConverter),\n    ("uuid", UUIDConverter),\n)\nDEFAULT_CONVERTERS: t.Mapping[str, type[BaseConverter]] = dict(_CONVERTER_TABLE)\n'),
+    ]},
+    {"name": "indep-converters-relative-weights-fromkeys", "edits": [
+        (C, '    regex = "[^/].*?"\n    weight = 200\n', '    regex = "[^/].*?"\n    weight = 2 * BaseConverter.weight\n'),
+        (C, '    weight = 50\n    num_convert: t.Callable[[t.Any], t.Any] = int\n', '    weight = BaseConverter.weight // 2\n    num_convert: t.Callable[[t.Any], t.Any] = int\n'),
+        (C, 'DEFAULT_CONVERTERS: t.Mapping[str, type[BaseConverter]] = {\n    "default": UnicodeConverter,\n    "string": UnicodeConverter,\n    "any": AnyConverter,\n', 'DEFAULT_CONVERTERS: t.Mapping[str, type[BaseConverter]] = {\n    **dict.fromkeys(("default", "string"), UnicodeConverter),\n    "any": AnyConverter,\n'),
+    ]},
+]
+
+
+# ======================================================================
+# round 2c: converter obtained through a helper, lists grown by rebinding, map.update through a helper of the adapter
+
+E = "routing/exceptions.py"
+_GETCONV = (
+    "                c_args, c_kwargs = parse_converter_args(data[\"arguments\"] or \"\")\n"
+    "                convobj = self.get_converter(\n"
+    "                    data[\"variable\"], data[\"converter\"] or \"default\", c_args, c_kwargs\n"
+    "                )\n"
+)
+_CONV_CLOSURE = (
+    "        def _converter_for(found: dict[str, t.Any]) -> BaseConverter:\n"
+    "            c_args, c_kwargs = parse_converter_args(found[\"arguments\"] or \"\")\n"
+    "            return self.get_converter(\n"
+    "                found[\"variable\"], found[\"converter\"] or \"default\", c_args, c_kwargs\n"
+    "            )\n"
+    "\n"
+    "        pos = 0\n        while pos < len(rule):\n"
+)
+_LOOP_AT = "        pos = 0\n        while pos < len(rule):\n"
+_APPEND_S = "                static_weights.append((len(static_weights), -len(data[\"static\"])))\n"
+_APPEND_A = "                argument_weights.append(convobj.weight)\n"
+_MAPUP = "        self.map.update()\n        if path_info is None:\n            path_info = self.path_info\n        if query_args is None:"
+
+MUTANTS += [
+    {"name": "converter-from-closure-weight-of-default", "expect": "R3.1", "edits": [(R, _GETCONV, "                convobj = _converter_for(data)\n"), (R, _LOOP_AT, _CONV_CLOSURE),
+        (R, _APPEND_A, "                argument_weights.append(BaseConverter.weight)\n")]},
+    {"name": "adapter-refresh-helper-conditional", "expect": "R3.1", "edits": [(P, _MAPUP, "        self._refresh()\n        if path_info is None:\n            path_info = self.path_info\n        if query_args is None:"),
+        (P, _TEST_AT, "    def _refresh(self) -> None:\n        if self.map._rules:\n            return\n        self.map.update()\n\n" + _TEST_AT)]},
+]
+
+TWINS += [
+    {"name": "converter-from-closure", "edits": [(R, _GETCONV, "                convobj = _converter_for(data)\n"), (R, _LOOP_AT, _CONV_CLOSURE)]},
+    {"name": "weights-grow-by-rebinding", "edits": [(R, _APPEND_S, "                static_weights = static_weights + [(len(static_weights), -len(data[\"static\"]))]\n"), (R, _APPEND_A, "                argument_weights = [*argument_weights, convobj.weight]\n")]},
+    {"name": "adapter-refresh-helper", "edits": [(P, _MAPUP, "        self._refresh()\n        if path_info is None:\n            path_info = self.path_info\n        if query_args is None:"),
+        (P, _TEST_AT, "    def _refresh(self) -> None:\n        self.map.update()\n\n" + _TEST_AT)]},
+]
+
+# second independent round (bolder restructurings; nine of twenty-five were not understood at first). Not in the battery because they
+# stay exit 2: the search closure moved to a module-level function with a bookkeeping object; a `match` statement in the handler (CFG builder)
+TWINS += [
+    {"name": "indep2-match-rule-loops-continue-guards-methods-local", "edits": [
+        (M, '            if parts == []:\n                for rule in state.rules:\n                    if rule.methods is not None and method not in rule.methods:\n                        have_match_for.update(rule.methods)\n                    elif rule.websocket != websocket:\n                        websocket_mismatch = True\n                    else:\n                        return rule, values\n', '            if parts == []:\n                for rule in state.rules:\n                    allowed = rule.methods\n                    if allowed is not None and method not in allowed:\n                        have_match_for.update(allowed)\n                        continue\n                    if rule.websocket != websocket:\n                        websocket_mismatch = True\n                        continue\n                    return rule, values\n'),
+        (M, '                    if rule.strict_slashes:\n                        continue\n                    if rule.methods is not None and method not in rule.methods:\n                        have_match_for.update(rule.methods)\n                    elif rule.websocket != websocket:\n                        websocket_mismatch = True\n                    else:\n                        return rule, values\n', '                    if rule.strict_slashes:\n                        continue\n                    allowed = rule.methods\n                    if allowed is not None and method not in allowed:\n                        have_match_for.update(allowed)\n                        continue\n                    if rule.websocket != websocket:\n                        websocket_mismatch = True\n                        continue\n                    return rule, values\n'),
+    ]},
+    {"name": "indep2-match-missing-result-first-single-try", "edits": [
+        (M, '        try:\n            rv = _match(self._root, [domain, *path.split("/")], [])\n        except SlashRequired:\n            raise RequestPath(f"{path}/") from None\n\n        if self.merge_slashes and rv is None:\n            # Try to match again, but with slashes merged\n            path = re.sub("/{2,}?", "/", path)\n            try:\n                rv = _match(self._root, [domain, *path.split("/")], [])\n            except SlashRequired:\n                raise RequestPath(f"{path}/") from None\n            if rv is None or rv[0].merge_slashes is False:\n                raise NoMatch(have_match_for, websocket_mismatch)\n            else:\n                raise RequestPath(f"{path}")\n        elif rv is not None:\n            rule, values = rv\n\n            result = {}\n            for name, value in zip(rule._converters.keys(), values):\n                try:\n                    value = rule._converters[name].to_python(value)\n                except ValidationError:\n                    raise NoMatch(have_match_for, websocket_mismatch) from None\n                result[str(name)] = value\n            if rule.defaults:\n                result.update(rule.defaults)\n\n            if rule.alias and rule.map.redirect_defaults:\n                raise RequestAliasRedirect(result, rule.endpoint)\n\n            return rule, result\n\n        raise NoMatch(have_match_for, websocket_mismatch)\n', '        try:\n            rv = _match(self._root, [domain, *path.split("/")], [])\n            if rv is None:\n                if not self.merge_slashes:\n                    raise NoMatch(have_match_for, websocket_mismatch)\n                # Try to match again, but with slashes merged\n                path = re.sub("/{2,}?", "/", path)\n                rv = _match(self._root, [domain, *path.split("/")], [])\n                if rv is None or rv[0].merge_slashes is False:\n                    raise NoMatch(have_match_for, websocket_mismatch)\n                raise RequestPath(f"{path}")\n        except SlashRequired:\n            raise RequestPath(f"{path}/") from None\n\n        rule, values = rv\n\n        result = {}\n        for name, value in zip(rule._converters.keys(), values):\n            try:\n                value = rule._converters[name].to_python(value)\n            except ValidationError:\n                raise NoMatch(have_match_for, websocket_mismatch) from None\n            result[str(name)] = value\n        if rule.defaults:\n            result.update(rule.defaults)\n\n        if rule.alias and rule.map.redirect_defaults:\n            raise RequestAliasRedirect(result, rule.endpoint)\n\n        return rule, result\n'),
+    ]},
+    {"name": "indep2-match-nomatch-factory-closure-items-zip", "edits": [
+        (M, '            return None\n\n        try:\n            rv = _match(self._root, [domain, *path.split("/")], [])\n        except SlashRequired:\n            raise RequestPath(f"{path}/") from None\n', '            return None\n\n        def _no_match() -> NoMatch:\n            # Evaluated lazily so it sees everything the walk recorded.\n            return NoMatch(have_match_for, websocket_mismatch)\n\n        try:\n            rv = _match(self._root, [domain, *path.split("/")], [])\n        except SlashRequired:\n            raise RequestPath(f"{path}/") from None\n'),
+        (M, '            if rv is None or rv[0].merge_slashes is False:\n                raise NoMatch(have_match_for, websocket_mismatch)\n            else:\n', '            if rv is None or rv[0].merge_slashes is False:\n                raise _no_match()\n            else:\n'),
+        (M, '            for name, value in zip(rule._converters.keys(), values):\n                try:\n                    value = rule._converters[name].to_python(value)\n                except ValidationError:\n                    raise NoMatch(have_match_for, websocket_mismatch) from None\n                result[str(name)] = value\n', '            for (name, converter), raw in zip(rule._converters.items(), values):\n                try:\n                    converted = converter.to_python(raw)\n                except ValidationError:\n                    raise _no_match() from None\n                else:\n                    result[str(name)] = converted\n'),
+        (M, '            return rule, result\n\n        raise NoMatch(have_match_for, websocket_mismatch)\n', '            return rule, result\n\n        raise _no_match()\n'),
+    ]},
+    {"name": "indep2-match-head-tail-star-unpack-truthiness", "edits": [
+        (M, '            if parts == []:\n', '            if not parts:\n'),
+        (M, '            part = parts[0]\n            # To match this part try the static transitions first\n            if part in state.static:\n                rv = _match(state.static[part], parts[1:], values)\n', '            part, *tail = parts\n            # To match this part try the static transitions first\n            if part in state.static:\n                rv = _match(state.static[part], tail, values)\n'),
+        (M, '                target = part\n                remaining = parts[1:]\n', '                target = part\n                remaining = tail\n'),
+        (M, '            if parts == [""]:\n', '            if part == "" and len(tail) == 0:\n'),
+    ]},
+    {"name": "indep2-match-nonstrict-rules-filterfalse-attrgetter", "edits": [
+        (M, 'from dataclasses import field\n', 'from dataclasses import field\nfrom itertools import filterfalse\nfrom operator import attrgetter\n'),
+        (M, '                for rule in state.rules:\n                    if rule.strict_slashes:\n                        continue\n                    if rule.methods is not None and method not in rule.methods:\n', '                lenient_rules = filterfalse(attrgetter("strict_slashes"), state.rules)\n                for rule in lenient_rules:\n                    if rule.methods is not None and method not in rule.methods:\n'),
+    ]},
+    {"name": "indep2-add-split-advance-method-early-returns", "edits": [
+        (M, '        state = self._root\n        for part in rule._parts:\n            if part.static:\n                state.static.setdefault(part.content, State())\n                state = state.static[part.content]\n            else:\n                for test_part, new_state in state.dynamic:\n                    if test_part == part:\n                        state = new_state\n                        break\n                else:\n                    new_state = State()\n                    state.dynamic.append((part, new_state))\n                    state = new_state\n        state.rules.append(rule)\n', '        state = self._root\n        for part in rule._parts:\n            state = self._advance(state, part)\n        state.rules.append(rule)\n\n    def _advance(self, state: State, part: RulePart) -> State:\n        """Return the state reached from *state* via *part*, creating it\n        if there is no such transition yet.\n        """\n        if part.static:\n            state.static.setdefault(part.content, State())\n            return state.static[part.content]\n\n        for test_part, new_state in state.dynamic:\n            if test_part == part:\n                return new_state\n\n        new_state = State()\n        state.dynamic.append((part, new_state))\n        return new_state\n'),
+    ]},
+    {"name": "indep2-update-staticmethod-chain-children", "edits": [
+        (M, 'from dataclasses import field\n', 'from dataclasses import field\nfrom itertools import chain\n'),
+        (M, '        state = self._root\n\n        def _update_state(state: State) -> None:\n            state.dynamic.sort(key=lambda entry: entry[0].weight)\n            for new_state in state.static.values():\n                _update_state(new_state)\n            for _, new_state in state.dynamic:\n                _update_state(new_state)\n\n        _update_state(state)\n', '        self._order_transitions(self._root)\n\n    @staticmethod\n    def _order_transitions(state: State) -> None:\n        state.dynamic.sort(key=lambda entry: entry[0].weight)\n        children = chain(state.static.values(), (child for _, child in state.dynamic))\n        for child in children:\n            StateMachineMatcher._order_transitions(child)\n'),
+    ]},
+    {"name": "indep2-adapter-nomatch-ordered-dispatch-table", "edits": [
+        (P, '        except NoMatch as e:\n            if e.have_match_for:\n                raise MethodNotAllowed(valid_methods=list(e.have_match_for)) from None\n\n            if e.websocket_mismatch:\n                raise WebsocketMismatch() from None\n\n            raise NotFound() from None\n', '        except NoMatch as e:\n            outcomes = (\n                (\n                    e.have_match_for,\n                    lambda: MethodNotAllowed(valid_methods=list(e.have_match_for)),\n                ),\n                (e.websocket_mismatch, WebsocketMismatch),\n                (True, NotFound),\n            )\n            make_error = next(make for applies, make in outcomes if applies)\n            raise make_error() from None\n'),
+    ]},
+    {"name": "indep2-adapter-try-else-flattened-direct-unpack", "edits": [
+        (P, '            result = self.map._matcher.match(domain_part, path_part, method, websocket)\n', '            rule, rv = self.map._matcher.match(\n                domain_part, path_part, method, websocket\n            )\n'),
+        (P, '            raise NotFound() from None\n        else:\n            rule, rv = result\n\n            if self.map.redirect_defaults:\n                redirect_url = self.get_default_redirect(rule, method, rv, query_args)\n                if redirect_url is not None:\n                    raise RequestRedirect(redirect_url)\n\n            if rule.redirect_to is not None:\n                if isinstance(rule.redirect_to, str):\n\n                    def _handle_match(match: t.Match[str]) -> str:\n                        value = rv[match.group(1)]\n                        return rule._converters[match.group(1)].to_url(value)\n\n                    redirect_url = _simple_rule_re.sub(_handle_match, rule.redirect_to)\n                else:\n                    redirect_url = rule.redirect_to(self, **rv)\n\n                if self.subdomain:\n                    netloc = f"{self.subdomain}.{self.server_name}"\n                else:\n                    netloc = self.server_name\n\n                raise RequestRedirect(\n                    urljoin(\n                        f"{self.url_scheme or \'http\'}://{netloc}{self.script_name}",\n                        redirect_url,\n                    )\n                )\n\n            if return_rule:\n                return rule, rv\n            else:\n                return rule.endpoint, rv\n', '            raise NotFound() from None\n\n        if self.map.redirect_defaults:\n            redirect_url = self.get_default_redirect(rule, method, rv, query_args)\n            if redirect_url is not None:\n                raise RequestRedirect(redirect_url)\n\n        if rule.redirect_to is not None:\n            if isinstance(rule.redirect_to, str):\n\n                def _handle_match(match: t.Match[str]) -> str:\n                    value = rv[match.group(1)]\n                    return rule._converters[match.group(1)].to_url(value)\n\n                redirect_url = _simple_rule_re.sub(_handle_match, rule.redirect_to)\n            else:\n                redirect_url = rule.redirect_to(self, **rv)\n\n            if self.subdomain:\n                netloc = f"{self.subdomain}.{self.server_name}"\n            else:\n                netloc = self.server_name\n\n            raise RequestRedirect(\n                urljoin(\n                    f"{self.url_scheme or \'http\'}://{netloc}{self.script_name}",\n                    redirect_url,\n                )\n            )\n\n        if return_rule:\n            return rule, rv\n        else:\n            return rule.endpoint, rv\n'),
+    ]},
+    {"name": "indep2-map-update-acquire-finally-methodcaller", "edits": [
+        (P, 'from pprint import pformat\n', 'from operator import methodcaller\nfrom pprint import pformat\n'),
+        (P, '        with self._remap_lock:\n            if not self._remap:\n                return\n\n            self._matcher.update()\n            for rules in self._rules_by_endpoint.values():\n                rules.sort(key=lambda x: x.build_compare_key())\n            self._remap = False\n', '        self._remap_lock.acquire()\n        try:\n            if not self._remap:\n                return\n\n            self._matcher.update()\n            by_build_priority = methodcaller("build_compare_key")\n            for rules in self._rules_by_endpoint.values():\n                rules.sort(key=by_build_priority)\n            self._remap = False\n        finally:\n            self._remap_lock.release()\n'),
+    ]},
+    {"name": "indep2-parse-rule-weighting-staticmethod", "edits": [
+        (R, '    def _parse_rule(self, rule: str) -> t.Iterable[RulePart]:\n', '    @staticmethod\n    def _weigh(\n        static_weights: list[tuple[int, int]], argument_weights: list[int]\n    ) -> Weighting:\n        return Weighting(\n            -len(static_weights),\n            static_weights,\n            -len(argument_weights),\n            argument_weights,\n        )\n\n    def _parse_rule(self, rule: str) -> t.Iterable[RulePart]:\n'),
+        (R, '                    weight = Weighting(\n                        -len(static_weights),\n                        static_weights,\n                        -len(argument_weights),\n                        argument_weights,\n                    )\n                    yield RulePart(\n                        content=content,\n                        final=final,\n                        static=static,\n                        suffixed=False,\n                        weight=weight,\n                    )\n', '                    yield RulePart(\n                        content=content,\n                        final=final,\n                        static=static,\n                        suffixed=False,\n                        weight=self._weigh(static_weights, argument_weights),\n                    )\n'),
+        (R, '        weight = Weighting(\n            -len(static_weights),\n            static_weights,\n            -len(argument_weights),\n            argument_weights,\n        )\n        yield RulePart(\n            content=content,\n            final=final,\n            static=static,\n            suffixed=suffixed,\n            weight=weight,\n        )\n', '        weight = self._weigh(static_weights, argument_weights)\n        yield RulePart(\n            content=content,\n            final=final,\n            static=static,\n            suffixed=suffixed,\n            weight=weight,\n        )\n'),
+    ]},
+    {"name": "indep2-parse-rule-tail-split-yield-from", "edits": [
+        (R, '        suffixed = False\n        if final and content[-1] == "/":\n            # If a converter is part_isolating=False (matches slashes) and ends with a\n            # slash, augment the regex to support slash redirects.\n            suffixed = True\n            content = content[:-1] + "(?<!/)(/?)"\n        if not static:\n            content += r"\\Z"\n        weight = Weighting(\n            -len(static_weights),\n            static_weights,\n            -len(argument_weights),\n            argument_weights,\n        )\n        yield RulePart(\n            content=content,\n            final=final,\n            static=static,\n            suffixed=suffixed,\n            weight=weight,\n        )\n        if suffixed:\n            yield RulePart(\n                content="", final=False, static=True, suffixed=False, weight=weight\n            )\n', '        yield from self._last_parts(\n            content, static, final, static_weights, argument_weights\n        )\n\n    @staticmethod\n    def _last_parts(\n        content: str,\n        static: bool,\n        final: bool,\n        static_weights: list[tuple[int, int]],\n        argument_weights: list[int],\n    ) -> t.Iterator[RulePart]:\n        suffixed = final and content[-1] == "/"\n        if suffixed:\n            # If a converter is part_isolating=False (matches slashes) and ends with a\n            # slash, augment the regex to support slash redirects.\n            content = content[:-1] + "(?<!/)(/?)"\n        if not static:\n            content += r"\\Z"\n        weight = Weighting(\n            -len(static_weights),\n            static_weights,\n            -len(argument_weights),\n            argument_weights,\n        )\n        yield RulePart(\n            content=content,\n            final=final,\n            static=static,\n            suffixed=suffixed,\n            weight=weight,\n        )\n        if suffixed:\n            yield RulePart(\n                content="", final=False, static=True, suffixed=False, weight=weight\n            )\n'),
+    ]},
+    {"name": "indep2-nomatch-init-slots-zip-setattr", "edits": [
+        (E, '        self.have_match_for = have_match_for\n        self.websocket_mismatch = websocket_mismatch\n', '        for slot, value in zip(\n            NoMatch.__slots__, (have_match_for, websocket_mismatch)\n        ):\n            setattr(self, slot, value)\n'),
+    ]},
+    {"name": "indep2-converters-weight-tuple-assign-class-body", "edits": [
+        (C, '    regex = "[^/]+"\n    weight = 100\n    part_isolating = True\n', '    regex, weight, part_isolating = "[^/]+", 100, True\n'),
+        (C, '    part_isolating = False\n    regex = "[^/].*?"\n    weight = 200\n', '    part_isolating, regex, weight = False, "[^/].*?", 200\n'),
+    ]},
+]
+
+# a defect in each of those shapes
+MUTANTS += [
+    {"name": "filter-drops-method-mismatches-silently", "expect": "R3.2", "edits": [
+        (M, 'from dataclasses import field\n', 'from dataclasses import field\nfrom itertools import filterfalse\nfrom operator import attrgetter\n'),
+        (M, '                for rule in state.rules:\n                    if rule.strict_slashes:\n                        continue\n                    if rule.methods is not None and method not in rule.methods:\n', '                lenient_rules = filter(lambda r: not r.strict_slashes and (r.methods is None or method in r.methods), state.rules)\n                for rule in lenient_rules:\n                    if rule.methods is not None and method not in rule.methods:\n'),
+    ]},
+    {"name": "dispatch-table-websocket-first", "expect": "R3.3", "edits": [
+        (P, '        except NoMatch as e:\n            if e.have_match_for:\n                raise MethodNotAllowed(valid_methods=list(e.have_match_for)) from None\n\n            if e.websocket_mismatch:\n                raise WebsocketMismatch() from None\n\n            raise NotFound() from None\n', '        except NoMatch as e:\n            outcomes = (\n                (e.websocket_mismatch, WebsocketMismatch),\n                (\n                    e.have_match_for,\n                    lambda: MethodNotAllowed(valid_methods=list(e.have_match_for)),\n                ),\n                (True, NotFound),\n            )\n            make_error = next(make for applies, make in outcomes if applies)\n            raise make_error() from None\n'),
+    ]},
+    {"name": "nomatch-zip-values-swapped", "expect": "R3.3", "edits": [
+        (E, '        self.have_match_for = have_match_for\n        self.websocket_mismatch = websocket_mismatch\n', '        for slot, value in zip(\n            NoMatch.__slots__, (websocket_mismatch, have_match_for)\n        ):\n            setattr(self, slot, value)\n'),
+    ]},
+    {"name": "class-body-tuple-weight-too-small", "expect": "R3.1", "edits": [
+        (C, '    regex = "[^/]+"\n    weight = 100\n    part_isolating = True\n', '    regex, weight, part_isolating = "[^/]+", 100, True\n'),
+        (C, '    part_isolating = False\n    regex = "[^/].*?"\n    weight = 200\n', '    part_isolating, regex, weight = False, "[^/].*?", 100\n'),
+    ]},
+    {"name": "staticmethod-traversal-skips-static-children", "expect": "R3.1", "edits": [
+        (M, 'from dataclasses import field\n', 'from dataclasses import field\nfrom itertools import chain\n'),
+        (M, '        state = self._root\n\n        def _update_state(state: State) -> None:\n            state.dynamic.sort(key=lambda entry: entry[0].weight)\n            for new_state in state.static.values():\n                _update_state(new_state)\n            for _, new_state in state.dynamic:\n                _update_state(new_state)\n\n        _update_state(state)\n', '        self._order_transitions(self._root)\n\n    @staticmethod\n    def _order_transitions(state: State) -> None:\n        state.dynamic.sort(key=lambda entry: entry[0].weight)\n        children = chain((child for _, child in state.dynamic))\n        for child in children:\n            StateMachineMatcher._order_transitions(child)\n'),
+    ]},
+    {"name": "single-try-retry-ungated", "expect": "R3.6", "edits": [
+        (M, '        try:\n            rv = _match(self._root, [domain, *path.split("/")], [])\n        except SlashRequired:\n            raise RequestPath(f"{path}/") from None\n\n        if self.merge_slashes and rv is None:\n            # Try to match again, but with slashes merged\n            path = re.sub("/{2,}?", "/", path)\n            try:\n                rv = _match(self._root, [domain, *path.split("/")], [])\n            except SlashRequired:\n                raise RequestPath(f"{path}/") from None\n            if rv is None or rv[0].merge_slashes is False:\n                raise NoMatch(have_match_for, websocket_mismatch)\n            else:\n                raise RequestPath(f"{path}")\n        elif rv is not None:\n            rule, values = rv\n\n            result = {}\n            for name, value in zip(rule._converters.keys(), values):\n                try:\n                    value = rule._converters[name].to_python(value)\n                except ValidationError:\n                    raise NoMatch(have_match_for, websocket_mismatch) from None\n                result[str(name)] = value\n            if rule.defaults:\n                result.update(rule.defaults)\n\n            if rule.alias and rule.map.redirect_defaults:\n                raise RequestAliasRedirect(result, rule.endpoint)\n\n            return rule, result\n\n        raise NoMatch(have_match_for, websocket_mismatch)\n', '        try:\n            rv = _match(self._root, [domain, *path.split("/")], [])\n            if rv is None:\n                # Try to match again, but with slashes merged\n                path = re.sub("/{2,}?", "/", path)\n                rv = _match(self._root, [domain, *path.split("/")], [])\n                if rv is None or rv[0].merge_slashes is False:\n                    raise NoMatch(have_match_for, websocket_mismatch)\n                raise RequestPath(f"{path}")\n        except SlashRequired:\n            raise RequestPath(f"{path}/") from None\n\n        rule, values = rv\n\n        result = {}\n        for name, value in zip(rule._converters.keys(), values):\n            try:\n                value = rule._converters[name].to_python(value)\n            except ValidationError:\n                raise NoMatch(have_match_for, websocket_mismatch) from None\n            result[str(name)] = value\n        if rule.defaults:\n            result.update(rule.defaults)\n\n        if rule.alias and rule.map.redirect_defaults:\n            raise RequestAliasRedirect(result, rule.endpoint)\n\n        return rule, result\n'),
+    ]},
+    {"name": "advance-helper-appends-state-first", "expect": "R3.1", "edits": [
+        (M, '        state = self._root\n        for part in rule._parts:\n            if part.static:\n                state.static.setdefault(part.content, State())\n                state = state.static[part.content]\n            else:\n                for test_part, new_state in state.dynamic:\n                    if test_part == part:\n                        state = new_state\n                        break\n                else:\n                    new_state = State()\n                    state.dynamic.append((part, new_state))\n                    state = new_state\n        state.rules.append(rule)\n', '        state = self._root\n        for part in rule._parts:\n            state = self._advance(state, part)\n        state.rules.append(rule)\n\n    def _advance(self, state: State, part: RulePart) -> State:\n        """Return the state reached from *state* via *part*, creating it\n        if there is no such transition yet.\n        """\n        if part.static:\n            state.static.setdefault(part.content, State())\n            return state.static[part.content]\n\n        for test_part, new_state in state.dynamic:\n            if test_part == part:\n                return new_state\n\n        new_state = State()\n        state.dynamic.append((new_state, part))\n        return new_state\n'),
+    ]},
+]
+
+
+# ======================================================================
+# third independent round (half composite clean-ups, half single restructurings; four of twenty-four were not understood at first)
+TWINS += [
+    {"name": "indep3-match-exhausted-parts-sibling-closure", "edits": [
+        (M, '        have_match_for = set()\n        websocket_mismatch = False\n\n        def _match(\n', '        have_match_for = set()\n        websocket_mismatch = False\n\n        def _match_exhausted(\n            state: State, values: list[str]\n        ) -> tuple[Rule, list[str]] | None:\n            # All parts have been matched via transitions. Hence if there\n            # is a rule with methods & websocket that work return it and\n            # the dynamic values extracted.\n            nonlocal websocket_mismatch\n\n            for rule in state.rules:\n                if rule.methods is not None and method not in rule.methods:\n                    have_match_for.update(rule.methods)\n                elif rule.websocket != websocket:\n                    websocket_mismatch = True\n                else:\n                    return rule, values\n\n            # Test if there is a match with this path with a\n            # trailing slash, if so raise an exception to report\n            # that matching is possible with an additional slash\n            if "" in state.static:\n                for rule in state.static[""].rules:\n                    if websocket == rule.websocket and (\n                        rule.methods is None or method in rule.methods\n                    ):\n                        if rule.strict_slashes:\n                            raise SlashRequired()\n                        else:\n                            return rule, values\n                    elif (\n                        not rule.strict_slashes\n                        and rule.methods is not None\n                        and method not in rule.methods\n                    ):\n                        have_match_for.update(rule.methods)\n            return None\n\n        def _match(\n'),
+        (M, '            if parts == []:\n                for rule in state.rules:\n                    if rule.methods is not None and method not in rule.methods:\n                        have_match_for.update(rule.methods)\n                    elif rule.websocket != websocket:\n                        websocket_mismatch = True\n                    else:\n                        return rule, values\n\n                # Test if there is a match with this path with a\n                # trailing slash, if so raise an exception to report\n                # that matching is possible with an additional slash\n                if "" in state.static:\n                    for rule in state.static[""].rules:\n                        if websocket == rule.websocket and (\n                            rule.methods is None or method in rule.methods\n                        ):\n                            if rule.strict_slashes:\n                                raise SlashRequired()\n                            else:\n                                return rule, values\n                        elif (\n                            not rule.strict_slashes\n                            and rule.methods is not None\n                            and method not in rule.methods\n                        ):\n                            have_match_for.update(rule.methods)\n                return None\n', '            if parts == []:\n                return _match_exhausted(state, values)\n'),
+    ]},
+    {"name": "indep3-match-slash-probe-conditional-rules-demorgan-continue", "edits": [
+        (M, '                if "" in state.static:\n                    for rule in state.static[""].rules:\n                        if websocket == rule.websocket and (\n                            rule.methods is None or method in rule.methods\n                        ):\n                            if rule.strict_slashes:\n                                raise SlashRequired()\n                            else:\n                                return rule, values\n                        elif (\n                            not rule.strict_slashes\n                            and rule.methods is not None\n                            and method not in rule.methods\n                        ):\n                            have_match_for.update(rule.methods)\n                return None\n', '                slash_rules = state.static[""].rules if "" in state.static else []\n                for rule in slash_rules:\n                    method_allowed = rule.methods is None or method in rule.methods\n                    if websocket != rule.websocket or not method_allowed:\n                        if not rule.strict_slashes and not method_allowed:\n                            have_match_for.update(rule.methods)\n                        continue\n                    if rule.strict_slashes:\n                        raise SlashRequired\n                    return rule, values\n                return None\n'),
+    ]},
+    {"name": "indep3-match-transition-candidates-generator", "edits": [
+        (M, '            part = parts[0]\n            # To match this part try the static transitions first\n            if part in state.static:\n                rv = _match(state.static[part], parts[1:], values)\n                if rv is not None:\n                    return rv\n            # No match via the static transitions, so try the dynamic\n            # ones.\n            for test_part, new_state in state.dynamic:\n                target = part\n                remaining = parts[1:]\n                # A final part indicates a transition that always\n                # consumes the remaining parts i.e. transitions to a\n                # final state.\n                if test_part.final:\n                    target = "/".join(parts)\n                    remaining = []\n                match = re.compile(test_part.content).match(target)\n                if match is not None:\n                    if test_part.suffixed:\n                        # If a part_isolating=False part has a slash suffix, remove the\n                        # suffix from the match and check for the slash redirect next.\n                        suffix = match.groups()[-1]\n                        if suffix == "/":\n                            remaining = [""]\n\n                    converter_groups = sorted(\n                        match.groupdict().items(), key=lambda entry: entry[0]\n                    )\n                    groups = [\n                        value\n                        for key, value in converter_groups\n                        if key[:11] == "__werkzeug_"\n                    ]\n                    rv = _match(new_state, remaining, values + groups)\n                    if rv is not None:\n                        return rv\n', '            part = parts[0]\n\n            def _transitions() -> t.Iterator[tuple[State, list[str], list[str]]]:\n                # To match this part try the static transitions first\n                if part in state.static:\n                    yield state.static[part], parts[1:], values\n                # No match via the static transitions, so try the dynamic\n                # ones.\n                for test_part, new_state in state.dynamic:\n                    target = part\n                    remaining = parts[1:]\n                    # A final part indicates a transition that always\n                    # consumes the remaining parts i.e. transitions to a\n                    # final state.\n                    if test_part.final:\n                        target = "/".join(parts)\n                        remaining = []\n                    match = re.compile(test_part.content).match(target)\n                    if match is None:\n                        continue\n                    if test_part.suffixed:\n                        # If a part_isolating=False part has a slash suffix, remove the\n                        # suffix from the match and check for the slash redirect next.\n                        suffix = match.groups()[-1]\n                        if suffix == "/":\n                            remaining = [""]\n\n                    converter_groups = sorted(\n                        match.groupdict().items(), key=lambda entry: entry[0]\n                    )\n                    groups = [\n                        value\n                        for key, value in converter_groups\n                        if key[:11] == "__werkzeug_"\n                    ]\n                    yield new_state, remaining, values + groups\n\n            for next_state, next_parts, next_values in _transitions():\n                rv = _match(next_state, next_parts, next_values)\n                if rv is not None:\n                    return rv\n'),
+    ]},
+    {"name": "indep3-match-found-result-first-guard-clauses", "edits": [
+        (M, '        if self.merge_slashes and rv is None:\n            # Try to match again, but with slashes merged\n            path = re.sub("/{2,}?", "/", path)\n            try:\n                rv = _match(self._root, [domain, *path.split("/")], [])\n            except SlashRequired:\n                raise RequestPath(f"{path}/") from None\n            if rv is None or rv[0].merge_slashes is False:\n                raise NoMatch(have_match_for, websocket_mismatch)\n            else:\n                raise RequestPath(f"{path}")\n        elif rv is not None:\n            rule, values = rv\n\n            result = {}\n            for name, value in zip(rule._converters.keys(), values):\n                try:\n                    value = rule._converters[name].to_python(value)\n                except ValidationError:\n                    raise NoMatch(have_match_for, websocket_mismatch) from None\n                result[str(name)] = value\n            if rule.defaults:\n                result.update(rule.defaults)\n\n            if rule.alias and rule.map.redirect_defaults:\n                raise RequestAliasRedirect(result, rule.endpoint)\n\n            return rule, result\n\n        raise NoMatch(have_match_for, websocket_mismatch)\n', '        if rv is not None:\n            rule, values = rv\n\n            result = {}\n            for name, value in zip(rule._converters.keys(), values):\n                try:\n                    value = rule._converters[name].to_python(value)\n                except ValidationError:\n                    raise NoMatch(have_match_for, websocket_mismatch) from None\n                result[str(name)] = value\n            if rule.defaults:\n                result.update(rule.defaults)\n\n            if rule.alias and rule.map.redirect_defaults:\n                raise RequestAliasRedirect(result, rule.endpoint)\n\n            return rule, result\n\n        if not self.merge_slashes:\n            raise NoMatch(have_match_for, websocket_mismatch)\n\n        # Try to match again, but with slashes merged\n        path = re.sub("/{2,}?", "/", path)\n        try:\n            rv = _match(self._root, [domain, *path.split("/")], [])\n        except SlashRequired:\n            raise RequestPath(f"{path}/") from None\n        if rv is None or rv[0].merge_slashes is False:\n            raise NoMatch(have_match_for, websocket_mismatch)\n        raise RequestPath(f"{path}")\n'),
+    ]},
+    {"name": "indep3-update-children-first-renames-direct-root", "edits": [
+        (M, '        state = self._root\n\n        def _update_state(state: State) -> None:\n            state.dynamic.sort(key=lambda entry: entry[0].weight)\n            for new_state in state.static.values():\n                _update_state(new_state)\n            for _, new_state in state.dynamic:\n                _update_state(new_state)\n\n        _update_state(state)\n', '\n        def _update_state(state: State) -> None:\n            for child in state.static.values():\n                _update_state(child)\n            for _, child in state.dynamic:\n                _update_state(child)\n            state.dynamic.sort(key=lambda transition: transition[0].weight)\n\n        _update_state(self._root)\n'),
+    ]},
+    {"name": "indep3-adapter-nomatch-http-error-method-on-exception", "edits": [
+        (E, 'from ..exceptions import HTTPException\n', 'from ..exceptions import HTTPException\nfrom ..exceptions import MethodNotAllowed\nfrom ..exceptions import NotFound\n'),
+        (E, '        self.have_match_for = have_match_for\n        self.websocket_mismatch = websocket_mismatch\n', '        self.have_match_for = have_match_for\n        self.websocket_mismatch = websocket_mismatch\n\n    def http_error(self) -> HTTPException:\n        """The HTTP error that reports this failed match to the client."""\n        if self.have_match_for:\n            return MethodNotAllowed(valid_methods=list(self.have_match_for))\n\n        if self.websocket_mismatch:\n            return WebsocketMismatch()\n\n        return NotFound()\n'),
+        (P, '        except NoMatch as e:\n            if e.have_match_for:\n                raise MethodNotAllowed(valid_methods=list(e.have_match_for)) from None\n\n            if e.websocket_mismatch:\n                raise WebsocketMismatch() from None\n\n            raise NotFound() from None\n', '        except NoMatch as e:\n            raise e.http_error() from None\n'),
+    ]},
+    {"name": "indep3-adapter-except-clauses-reordered-walrus-allowed-rename", "edits": [
+        (P, '        except RequestPath as e:\n            # safe = https://url.spec.whatwg.org/#url-path-segment-string\n            new_path = quote(e.path_info, safe="!$&\'()*+,/:;=@")\n            raise RequestRedirect(\n                self.make_redirect_url(new_path, query_args)\n            ) from None\n        except RequestAliasRedirect as e:\n            raise RequestRedirect(\n                self.make_alias_redirect_url(\n                    f"{domain_part}|{path_part}",\n                    e.endpoint,\n                    e.matched_values,\n                    method,\n                    query_args,\n                )\n            ) from None\n        except NoMatch as e:\n            if e.have_match_for:\n                raise MethodNotAllowed(valid_methods=list(e.have_match_for)) from None\n\n            if e.websocket_mismatch:\n                raise WebsocketMismatch() from None\n\n            raise NotFound() from None\n', '        except NoMatch as no_match:\n            if allowed := no_match.have_match_for:\n                raise MethodNotAllowed(valid_methods=list(allowed)) from None\n\n            if no_match.websocket_mismatch:\n                raise WebsocketMismatch() from None\n\n            raise NotFound() from None\n        except RequestPath as e:\n            # safe = https://url.spec.whatwg.org/#url-path-segment-string\n            new_path = quote(e.path_info, safe="!$&\'()*+,/:;=@")\n            raise RequestRedirect(\n                self.make_redirect_url(new_path, query_args)\n            ) from None\n        except RequestAliasRedirect as e:\n            raise RequestRedirect(\n                self.make_alias_redirect_url(\n                    f"{domain_part}|{path_part}",\n                    e.endpoint,\n                    e.matched_values,\n                    method,\n                    query_args,\n                )\n            ) from None\n'),
+    ]},
+    {"name": "indep3-parse-rule-part-factory-closure", "edits": [
+        (R, '        content = ""\n        static = True\n        argument_weights = []\n        static_weights: list[tuple[int, int]] = []\n        final = False\n        convertor_number = 0\n', '        content = ""\n        static = True\n        argument_weights = []\n        static_weights: list[tuple[int, int]] = []\n        final = False\n        convertor_number = 0\n\n        def _make_part(suffixed: bool = False) -> RulePart:\n            # Reads the enclosing locals at call time, i.e. describes the\n            # part that has been collected so far.\n            return RulePart(\n                content=content,\n                final=final,\n                static=static,\n                suffixed=suffixed,\n                weight=Weighting(\n                    -len(static_weights),\n                    static_weights,\n                    -len(argument_weights),\n                    argument_weights,\n                ),\n            )\n'),
+        (R, '                    weight = Weighting(\n                        -len(static_weights),\n                        static_weights,\n                        -len(argument_weights),\n                        argument_weights,\n                    )\n                    yield RulePart(\n                        content=content,\n                        final=final,\n                        static=static,\n                        suffixed=False,\n                        weight=weight,\n                    )\n', '                    yield _make_part()\n'),
+        (R, '        weight = Weighting(\n            -len(static_weights),\n            static_weights,\n            -len(argument_weights),\n            argument_weights,\n        )\n        yield RulePart(\n            content=content,\n            final=final,\n            static=static,\n            suffixed=suffixed,\n            weight=weight,\n        )\n        if suffixed:\n            yield RulePart(\n                content="", final=False, static=True, suffixed=False, weight=weight\n            )\n', '        last_part = _make_part(suffixed)\n        yield last_part\n        if suffixed:\n            yield RulePart(\n                content="",\n                final=False,\n                static=True,\n                suffixed=False,\n                weight=last_part.weight,\n            )\n'),
+    ]},
+    {"name": "indep3-parse-rule-weighting-classmethod-constructor", "edits": [
+        (R, '    number_argument_weights: int\n    argument_weights: list[int]\n', '    number_argument_weights: int\n    argument_weights: list[int]\n\n    @classmethod\n    def from_weights(\n        cls, static_weights: list[tuple[int, int]], argument_weights: list[int]\n    ) -> Weighting:\n        """Weighting of a part, the counts are derived from the lists."""\n        return cls(\n            -len(static_weights),\n            static_weights,\n            -len(argument_weights),\n            argument_weights,\n        )\n'),
+        (R, '                    weight = Weighting(\n                        -len(static_weights),\n                        static_weights,\n                        -len(argument_weights),\n                        argument_weights,\n                    )\n', '                    weight = Weighting.from_weights(static_weights, argument_weights)\n'),
+        (R, '        weight = Weighting(\n            -len(static_weights),\n            static_weights,\n            -len(argument_weights),\n            argument_weights,\n        )\n', '        weight = Weighting.from_weights(static_weights, argument_weights)\n'),
+    ]},
+    {"name": "indep3-parse-rule-per-part-outer-loop", "edits": [
+        (R, '        content = ""\n        static = True\n        argument_weights = []\n        static_weights: list[tuple[int, int]] = []\n        final = False\n        convertor_number = 0\n\n        pos = 0\n        while pos < len(rule):\n            match = _part_re.match(rule, pos)\n            if match is None:\n                raise ValueError(f"malformed url rule: {rule!r}")\n\n            data = match.groupdict()\n            if data["static"] is not None:\n                static_weights.append((len(static_weights), -len(data["static"])))\n                self._trace.append((False, data["static"]))\n                content += data["static"] if static else re.escape(data["static"])\n\n            if data["variable"] is not None:\n                if static:\n                    # Switching content to represent regex, hence the need to escape\n                    content = re.escape(content)\n                static = False\n                c_args, c_kwargs = parse_converter_args(data["arguments"] or "")\n                convobj = self.get_converter(\n                    data["variable"], data["converter"] or "default", c_args, c_kwargs\n                )\n                self._converters[data["variable"]] = convobj\n                self.arguments.add(data["variable"])\n                if not convobj.part_isolating:\n                    final = True\n                content += f"(?P<__werkzeug_{convertor_number}>{convobj.regex})"\n                convertor_number += 1\n                argument_weights.append(convobj.weight)\n                self._trace.append((True, data["variable"]))\n\n            if data["slash"] is not None:\n                self._trace.append((False, "/"))\n                if final:\n                    content += "/"\n                else:\n                    if not static:\n                        content += r"\\Z"\n                    weight = Weighting(\n                        -len(static_weights),\n                        static_weights,\n                        -len(argument_weights),\n                        argument_weights,\n                    )\n                    yield RulePart(\n                        content=content,\n                        final=final,\n                        static=static,\n                        suffixed=False,\n                        weight=weight,\n                    )\n                    content = ""\n                    static = True\n                    argument_weights = []\n                    static_weights = []\n                    final = False\n                    convertor_number = 0\n\n            pos = match.end()\n', '        pos = 0\n        end = len(rule)\n        while True:\n            # State of the part that is currently being collected.\n            content = ""\n            static = True\n            argument_weights: list[int] = []\n            static_weights: list[tuple[int, int]] = []\n            final = False\n            convertor_number = 0\n            part_complete = False\n\n            while pos < end and not part_complete:\n                match = _part_re.match(rule, pos)\n                if match is None:\n                    raise ValueError(f"malformed url rule: {rule!r}")\n\n                data = match.groupdict()\n                if data["static"] is not None:\n                    static_weights.append((len(static_weights), -len(data["static"])))\n                    self._trace.append((False, data["static"]))\n                    content += data["static"] if static else re.escape(data["static"])\n\n                if data["variable"] is not None:\n                    if static:\n                        # Switching content to represent regex, hence the need to\n                        # escape\n                        content = re.escape(content)\n                    static = False\n                    c_args, c_kwargs = parse_converter_args(data["arguments"] or "")\n                    convobj = self.get_converter(\n                        data["variable"],\n                        data["converter"] or "default",\n                        c_args,\n                        c_kwargs,\n                    )\n                    self._converters[data["variable"]] = convobj\n                    self.arguments.add(data["variable"])\n                    if not convobj.part_isolating:\n                        final = True\n                    content += f"(?P<__werkzeug_{convertor_number}>{convobj.regex})"\n                    convertor_number += 1\n                    argument_weights.append(convobj.weight)\n                    self._trace.append((True, data["variable"]))\n\n                if data["slash"] is not None:\n                    self._trace.append((False, "/"))\n                    if final:\n                        content += "/"\n                    else:\n                        part_complete = True\n\n                pos = match.end()\n\n            if not part_complete:\n                # Ran out of input, what was collected is the last part.\n                break\n\n            if not static:\n                content += r"\\Z"\n            weight = Weighting(\n                -len(static_weights),\n                static_weights,\n                -len(argument_weights),\n                argument_weights,\n            )\n            yield RulePart(\n                content=content,\n                final=final,\n                static=static,\n                suffixed=False,\n                weight=weight,\n            )\n'),
+    ]},
+]
+
+# a defect in each of the shapes that needed work
+MUTANTS += [
+    {"name": "generator-yields-static-candidate-last", "expect": "R3.1", "edits": [
+        (M, '            part = parts[0]\n            # To match this part try the static transitions first\n            if part in state.static:\n                rv = _match(state.static[part], parts[1:], values)\n                if rv is not None:\n                    return rv\n            # No match via the static transitions, so try the dynamic\n            # ones.\n            for test_part, new_state in state.dynamic:\n                target = part\n                remaining = parts[1:]\n                # A final part indicates a transition that always\n                # consumes the remaining parts i.e. transitions to a\n                # final state.\n                if test_part.final:\n                    target = "/".join(parts)\n                    remaining = []\n                match = re.compile(test_part.content).match(target)\n                if match is not None:\n                    if test_part.suffixed:\n                        # If a part_isolating=False part has a slash suffix, remove the\n                        # suffix from the match and check for the slash redirect next.\n                        suffix = match.groups()[-1]\n                        if suffix == "/":\n                            remaining = [""]\n\n                    converter_groups = sorted(\n                        match.groupdict().items(), key=lambda entry: entry[0]\n                    )\n                    groups = [\n                        value\n                        for key, value in converter_groups\n                        if key[:11] == "__werkzeug_"\n                    ]\n                    rv = _match(new_state, remaining, values + groups)\n                    if rv is not None:\n                        return rv\n', '            part = parts[0]\n\n            def _transitions() -> t.Iterator[tuple[State, list[str], list[str]]]:\n                # To match this part try the static transitions first\n                # No match via the static transitions, so try the dynamic\n                # ones.\n                for test_part, new_state in state.dynamic:\n                    target = part\n                    remaining = parts[1:]\n                    # A final part indicates a transition that always\n                    # consumes the remaining parts i.e. transitions to a\n                    # final state.\n                    if test_part.final:\n                        target = "/".join(parts)\n                        remaining = []\n                    match = re.compile(test_part.content).match(target)\n                    if match is None:\n                        continue\n                    if test_part.suffixed:\n                        # If a part_isolating=False part has a slash suffix, remove the\n                        # suffix from the match and check for the slash redirect next.\n                        suffix = match.groups()[-1]\n                        if suffix == "/":\n                            remaining = [""]\n\n                    converter_groups = sorted(\n                        match.groupdict().items(), key=lambda entry: entry[0]\n                    )\n                    groups = [\n                        value\n                        for key, value in converter_groups\n                        if key[:11] == "__werkzeug_"\n                    ]\n                    yield new_state, remaining, values + groups\n                if part in state.static:\n                    yield state.static[part], parts[1:], values\n\n            for next_state, next_parts, next_values in _transitions():\n                rv = _match(next_state, next_parts, next_values)\n                if rv is not None:\n                    return rv\n'),
+    ]},
+    {"name": "generator-dynamic-candidates-reversed", "expect": "R3.1", "edits": [
+        (M, '            part = parts[0]\n            # To match this part try the static transitions first\n            if part in state.static:\n                rv = _match(state.static[part], parts[1:], values)\n                if rv is not None:\n                    return rv\n            # No match via the static transitions, so try the dynamic\n            # ones.\n            for test_part, new_state in state.dynamic:\n                target = part\n                remaining = parts[1:]\n                # A final part indicates a transition that always\n                # consumes the remaining parts i.e. transitions to a\n                # final state.\n                if test_part.final:\n                    target = "/".join(parts)\n                    remaining = []\n                match = re.compile(test_part.content).match(target)\n                if match is not None:\n                    if test_part.suffixed:\n                        # If a part_isolating=False part has a slash suffix, remove the\n                        # suffix from the match and check for the slash redirect next.\n                        suffix = match.groups()[-1]\n                        if suffix == "/":\n                            remaining = [""]\n\n                    converter_groups = sorted(\n                        match.groupdict().items(), key=lambda entry: entry[0]\n                    )\n                    groups = [\n                        value\n                        for key, value in converter_groups\n                        if key[:11] == "__werkzeug_"\n                    ]\n                    rv = _match(new_state, remaining, values + groups)\n                    if rv is not None:\n                        return rv\n', '            part = parts[0]\n\n            def _transitions() -> t.Iterator[tuple[State, list[str], list[str]]]:\n                # To match this part try the static transitions first\n                if part in state.static:\n                    yield state.static[part], parts[1:], values\n                # No match via the static transitions, so try the dynamic\n                # ones.\n                for test_part, new_state in reversed(state.dynamic):\n                    target = part\n                    remaining = parts[1:]\n                    # A final part indicates a transition that always\n                    # consumes the remaining parts i.e. transitions to a\n                    # final state.\n                    if test_part.final:\n                        target = "/".join(parts)\n                        remaining = []\n                    match = re.compile(test_part.content).match(target)\n                    if match is None:\n                        continue\n                    if test_part.suffixed:\n                        # If a part_isolating=False part has a slash suffix, remove the\n                        # suffix from the match and check for the slash redirect next.\n                        suffix = match.groups()[-1]\n                        if suffix == "/":\n                            remaining = [""]\n\n                    converter_groups = sorted(\n                        match.groupdict().items(), key=lambda entry: entry[0]\n                    )\n                    groups = [\n                        value\n                        for key, value in converter_groups\n                        if key[:11] == "__werkzeug_"\n                    ]\n                    yield new_state, remaining, values + groups\n\n            for next_state, next_parts, next_values in _transitions():\n                rv = _match(next_state, next_parts, next_values)\n                if rv is not None:\n                    return rv\n'),
+    ]},
+    {"name": "generator-consumer-keeps-last-result", "expect": "R3.1", "edits": [
+        (M, '            part = parts[0]\n            # To match this part try the static transitions first\n            if part in state.static:\n                rv = _match(state.static[part], parts[1:], values)\n                if rv is not None:\n                    return rv\n            # No match via the static transitions, so try the dynamic\n            # ones.\n            for test_part, new_state in state.dynamic:\n                target = part\n                remaining = parts[1:]\n                # A final part indicates a transition that always\n                # consumes the remaining parts i.e. transitions to a\n                # final state.\n                if test_part.final:\n                    target = "/".join(parts)\n                    remaining = []\n                match = re.compile(test_part.content).match(target)\n                if match is not None:\n                    if test_part.suffixed:\n                        # If a part_isolating=False part has a slash suffix, remove the\n                        # suffix from the match and check for the slash redirect next.\n                        suffix = match.groups()[-1]\n                        if suffix == "/":\n                            remaining = [""]\n\n                    converter_groups = sorted(\n                        match.groupdict().items(), key=lambda entry: entry[0]\n                    )\n                    groups = [\n                        value\n                        for key, value in converter_groups\n                        if key[:11] == "__werkzeug_"\n                    ]\n                    rv = _match(new_state, remaining, values + groups)\n                    if rv is not None:\n                        return rv\n', '            part = parts[0]\n\n            def _transitions() -> t.Iterator[tuple[State, list[str], list[str]]]:\n                # To match this part try the static transitions first\n                if part in state.static:\n                    yield state.static[part], parts[1:], values\n                # No match via the static transitions, so try the dynamic\n                # ones.\n                for test_part, new_state in state.dynamic:\n                    target = part\n                    remaining = parts[1:]\n                    # A final part indicates a transition that always\n                    # consumes the remaining parts i.e. transitions to a\n                    # final state.\n                    if test_part.final:\n                        target = "/".join(parts)\n                        remaining = []\n                    match = re.compile(test_part.content).match(target)\n                    if match is None:\n                        continue\n                    if test_part.suffixed:\n                        # If a part_isolating=False part has a slash suffix, remove the\n                        # suffix from the match and check for the slash redirect next.\n                        suffix = match.groups()[-1]\n                        if suffix == "/":\n                            remaining = [""]\n\n                    converter_groups = sorted(\n                        match.groupdict().items(), key=lambda entry: entry[0]\n                    )\n                    groups = [\n                        value\n                        for key, value in converter_groups\n                        if key[:11] == "__werkzeug_"\n                    ]\n                    yield new_state, remaining, values + groups\n\n            found = None\n            for next_state, next_parts, next_values in _transitions():\n                rv = _match(next_state, next_parts, next_values)\n                if rv is not None:\n                    found = rv\n            if found is not None:\n                return found\n'),
+    ]},
+    {"name": "exception-method-websocket-before-methods", "expect": "R3.3", "edits": [
+        (E, 'from ..exceptions import HTTPException\n', 'from ..exceptions import HTTPException\nfrom ..exceptions import MethodNotAllowed\nfrom ..exceptions import NotFound\n'),
+        (E, '        self.have_match_for = have_match_for\n        self.websocket_mismatch = websocket_mismatch\n', '        self.have_match_for = have_match_for\n        self.websocket_mismatch = websocket_mismatch\n\n    def http_error(self) -> HTTPException:\n        """The HTTP error that reports this failed match to the client."""\n        if self.websocket_mismatch:\n            return WebsocketMismatch()\n\n        if self.have_match_for:\n            return MethodNotAllowed(valid_methods=list(self.have_match_for))\n\n        return NotFound()\n'),
+        (P, '        except NoMatch as e:\n            if e.have_match_for:\n                raise MethodNotAllowed(valid_methods=list(e.have_match_for)) from None\n\n            if e.websocket_mismatch:\n                raise WebsocketMismatch() from None\n\n            raise NotFound() from None\n', '        except NoMatch as e:\n            raise e.http_error() from None\n'),
+    ]},
+    {"name": "alternative-constructor-positive-count", "expect": "R3.1", "edits": [
+        (R, '    number_argument_weights: int\n    argument_weights: list[int]\n', '    number_argument_weights: int\n    argument_weights: list[int]\n\n    @classmethod\n    def from_weights(\n        cls, static_weights: list[tuple[int, int]], argument_weights: list[int]\n    ) -> Weighting:\n        """Weighting of a part, the counts are derived from the lists."""\n        return cls(\n            len(static_weights),\n            static_weights,\n            -len(argument_weights),\n            argument_weights,\n        )\n'),
+        (R, '                    weight = Weighting(\n                        -len(static_weights),\n                        static_weights,\n                        -len(argument_weights),\n                        argument_weights,\n                    )\n', '                    weight = Weighting.from_weights(static_weights, argument_weights)\n'),
+        (R, '        weight = Weighting(\n            -len(static_weights),\n            static_weights,\n            -len(argument_weights),\n            argument_weights,\n        )\n', '        weight = Weighting.from_weights(static_weights, argument_weights)\n'),
+    ]},
+    {"name": "conditional-rules-records-strict-rules", "expect": "R3.2", "edits": [
+        (M, '                if "" in state.static:\n                    for rule in state.static[""].rules:\n                        if websocket == rule.websocket and (\n                            rule.methods is None or method in rule.methods\n                        ):\n                            if rule.strict_slashes:\n                                raise SlashRequired()\n                            else:\n                                return rule, values\n                        elif (\n                            not rule.strict_slashes\n                            and rule.methods is not None\n                            and method not in rule.methods\n                        ):\n                            have_match_for.update(rule.methods)\n                return None\n', '                slash_rules = state.static[""].rules if "" in state.static else []\n                for rule in slash_rules:\n                    method_allowed = rule.methods is None or method in rule.methods\n                    if websocket != rule.websocket or not method_allowed:\n                        if not method_allowed:\n                            have_match_for.update(rule.methods)\n                        continue\n                    if rule.strict_slashes:\n                        raise SlashRequired\n                    return rule, values\n                return None\n'),
+    ]},
+]
